@@ -1,125 +1,465 @@
 """C17 — LRU caches (list/map coupling, end roles, throw guards, stored value) and
 SplayTree (owner not dangling, null contradiction, root write-back, link overwrite,
-allocation pairing, search orientation)."""
-from engine import ir, dtable, match, cfg as cfgm
+allocation pairing, search orientation).
+
+Verdict policy of this file: a violation is reported only with positive evidence - a path (valuation of the atoms) on which the
+recognised effects contradict the rule, in a closed world where every operation on the guarded state (list_/map_, root_, size_,
+the child links) has been recognised and classified.  A shape that is merely not recognised raises dtable.Undecidable."""
+import collections
+import copy
+
+from engine import ir, dtable, match, cfg as cfgm, normalize
 from engine.ir import kids, strip_casts, const_int, ref_of
 
 LS = "tlx::LruCacheSet"
 LM = "tlx::LruCacheMap"
 ST = "tlx::SplayTree"
 
+CASTS = ("ImplicitCastExpr", "CStyleCastExpr", "CXXStaticCastExpr", "CXXFunctionalCastExpr", "CXXReinterpretCastExpr", "CXXConstCastExpr")
+WRAP = ("ParenExpr", "MaterializeTemporaryExpr", "CXXBindTemporaryExpr", "ExprWithCleanups")
+ASSIGN_OPS = ("=", "+=", "-=", "*=", "/=", "%=", "|=", "&=", "^=", ">>=", "<<=")
+
+
+def peel(e):
+    """through casts, single-argument converting constructions and value wrappers"""
+    e = match.strip_conv(e)
+    while e is not None and kids(e) and e["k"] in WRAP:
+        e = match.strip_conv(kids(e)[0])
+    return e
+
+
+def is_null(e):
+    e = strip_casts(e)
+    return e is not None and (e["k"] in ("NullPtr", "CXXNullPtrLiteralExpr", "GNUNullExpr") or const_int(e) == 0)
+
+
+def post_order(e):
+    """nodes of an expression, operands before the operation (evaluation order of nested calls); lambdas are not entered"""
+    out = []
+
+    def rec(n):
+        if n is None:
+            return
+        if n["k"] != "LambdaExpr":
+            for c in kids(n):
+                rec(c)
+        out.append(n)
+    rec(e)
+    return out
+
+
+def path_roots(lf):
+    """the expressions evaluated for their effect on one path, in order: initialisers, expression statements, returned value
+    (conditions are evaluated by the decision table itself)"""
+    for ev in lf["events"]:
+        if ev[0] == "decl":
+            if kids(ev[1]) and kids(ev[1])[0] is not None:
+                yield ("decl", kids(ev[1])[0], ev[1])
+        elif ev[0] == "expr":
+            yield ("expr", ev[1], None)
+        elif ev[0] == "loop":
+            yield ("loop", ev[1], None)
+    st = lf["stop"]
+    if st[0] == "return" and st[1] and st[1][0] is not None:
+        yield ("ret", st[1][0], None)
+
+
+def opaque_atomize(special=None):
+    """atomize for decision tables over code whose conditions need not be understood: `special` recognises the atoms the rule
+    cares about, connectives / constants / bool locals are left to the table, every other condition is an opaque atom named
+    by its printed form (the same condition tested twice has one value)"""
+    def atomize(n, run):
+        if special is not None:
+            r = special(n, run)
+            if r is not None:
+                return r
+        k = n["k"]
+        if match.binop(n, ("==", "!=")) is None and k == "UnaryOperator" and n.get("op") == "!":
+            return None
+        if k == "BinaryOperator" and n.get("op") in ("&&", "||", ","):
+            return None
+        if k in ("ConditionalOperator", "CXXBoolLiteralExpr") or const_int(n) is not None:
+            return None
+        if k in CASTS and kids(n) and n.get("cast") in ("IntegralToBoolean", "PointerToBoolean", "NoOp", "IntegralCast", "LValueToRValue"):
+            return None
+        if k == "DeclRefExpr" and (n["ref"]["id"] in run.env or ((n.get("ty") or "").replace("const ", "") == "bool"
+                                                                 and n["ref"].get("kind") in ("local", "param"))):
+            return None
+        return ("c:" + dtable.describe(strip_casts(n)), False)
+    return atomize
+
+
+def ret_as_if(s, only=None):
+    """statement tree in which `return <bool expr>;` reads `if (<expr>) return; else return;` so that the decision table
+    evaluates the short-circuit structure of the returned condition (expression nodes are shared, not copied);
+    `only`: predicate selecting the returned expressions to treat like this"""
+    if s is None:
+        return None
+    k = s["k"]
+    if k == "ReturnStmt" and kids(s) and kids(s)[0] is not None and (kids(s)[0].get("ty") or "").replace("const ", "") == "bool" \
+            and const_int(kids(s)[0]) is None and (only is None or only(kids(s)[0])):
+        r = {"k": "ReturnStmt", "id": s["id"], "l": s.get("l"), "ch": []}
+        return {"k": "IfStmt", "id": -s["id"] - 1, "l": s.get("l"), "ch": [kids(s)[0], r, dict(r)]}
+    if k == "CompoundStmt":
+        out = dict(s)
+        out["ch"] = [ret_as_if(c, only) for c in kids(s)]
+        return out
+    if k == "IfStmt":
+        out = dict(s)
+        out["ch"] = [kids(s)[0]] + [ret_as_if(c, only) for c in kids(s)[1:]]
+        if isinstance(s.get("condvar"), dict):
+            # if (T v = init) ...  ->  { T v = init; if (v) ... }
+            del out["condvar"]
+            decl = {"k": "DeclStmt", "id": -s["id"] - 2, "l": s.get("l"), "ch": [s["condvar"]]}
+            return {"k": "CompoundStmt", "id": -s["id"] - 3, "l": s.get("l"), "ch": [decl, out]}
+        return out
+    if k == "LabelStmt":
+        out = dict(s)
+        out["ch"] = [ret_as_if(c, only) for c in kids(s)]
+        return out
+    return s
+
 
 # ------------------------------------------------------------------ LRU
-LIST_PURE = ("begin", "end", "cbegin", "cend", "rbegin", "rend", "size", "empty", "front", "back", "max_size")
-MAP_PURE = ("find", "end", "begin", "cend", "cbegin", "size", "empty", "count", "at", "max_size", "bucket_count", "load_factor")
+LIST_PURE = ("begin", "end", "cbegin", "cend", "rbegin", "rend", "crbegin", "crend", "size", "empty", "front", "back", "max_size", "get_allocator")
+MAP_PURE = ("end", "begin", "cend", "cbegin", "size", "empty", "count", "contains", "max_size", "bucket_count", "load_factor", "bucket", "hash_function",
+            "key_eq", "get_allocator")
+LIST_MUT = ("list.push_front", "list.push_back", "list.splice", "list.erase", "list.pop_back", "list.pop_front", "list.clear")
+LIST_ITER_ROLES = ("begin", "end", "last", "front-node", "found-node", "stale-begin")
+
+# functions that only read the arguments they take by (forwarding) reference
+VALUE_CALLS = ("make_pair", "make_tuple", "forward_as_tuple", "tie", "prev", "next", "distance", "move", "forward", "addressof", "as_const", "min", "max")
+
+Ev = collections.namedtuple("Ev", "kind detail src")
+
+
+def obj_call(e):
+    """(field, name, call) if e is a member function / member operator call on this->list_ or this->map_"""
+    if e is None or "callee" not in e or not kids(e):
+        return None
+    if not (e.get("member_call") or e["k"] == "CXXOperatorCallExpr"):
+        return None
+    f = match.this_field(kids(e)[0])
+    if f not in ("list_", "map_"):
+        return None
+    return f, e["callee"]["name"], e
+
+
+def is_sibling_call(n):
+    """a call of a member function on this object (implicit or explicit this)"""
+    return n is not None and "callee" in n and n.get("member_call") and n["k"] != "CXXOperatorCallExpr" and kids(n) \
+        and strip_casts(kids(n)[0]) is not None and strip_casts(kids(n)[0])["k"] == "This"
+
+
+def touches_state(fn, root):
+    """does the subtree mention list_ / map_, call a non-const member of this object or hand out this?"""
+    for z in ir.walk(root):
+        if z["k"] == "MemberExpr" and z.get("member") in ("list_", "map_"):
+            return True
+        if is_sibling_call(z) and not z["callee"].get("const"):
+            return True
+        if z["k"] == "LambdaExpr":
+            lam = fn.tu.by_did.get(z.get("fn"))
+            if lam is None or lam.body is None or touches_state(fn, lam.body) or any(y["k"] == "This" for y in ir.walk(lam.body)):
+                return True
+    return False
+
+
+def conditional_state_use(fn, e):
+    """an operand of ?: / && / || that is not always evaluated works on the list / the map"""
+    for z in ir.walk(e):
+        if z["k"] == "ConditionalOperator" or (z["k"] == "BinaryOperator" and z.get("op") in ("&&", "||")):
+            if any(touches_state(fn, c) for c in kids(z)[1:]):
+                return z
+    return None
+
+
+class _Siblings(normalize.Rewriter):
+    """inlines calls of the other non-const member functions of the same object, so that a mutator written in terms of its
+    siblings (get_touch = touch + get) is judged by the effects it has"""
+
+    def novel_callee(self, c):
+        if not is_sibling_call(c):
+            return None
+        cal = self.tu.by_did.get(c["callee"].get("did"))
+        if cal is None or cal.body is None or cal.did == self.fn.did or cal.record != self.fn.record or cal.d.get("const") \
+                or cal.kind in ("ctor", "dtor", "lambda"):
+            return None
+        if any(y["k"] in ("CXXTryStmt", "GotoStmt", "LabelStmt") for y in ir.walk(cal.body)):
+            return None
+        return cal
+
+
+def with_siblings_inlined(fn):
+    if not any(is_sibling_call(y) and not y["callee"].get("const") for y in ir.walk(fn.body)):
+        return fn.body
+    rw = _Siblings(fn.tu, fn)
+    body = copy.deepcopy(fn.body)
+    try:
+        for _ in range(3):
+            rw.changed = False
+            body["ch"] = rw.expand_list(kids(body))
+            if not rw.changed:
+                break
+    except Exception:       # whatever cannot be inlined stays a call: lru_events then refuses to judge the path
+        return fn.body
+    return body
 
 
 def lru_events(fn, lf):
-    """classify the effects on one path: every call on list_ / map_ anywhere in the executed expressions and
-    initialisers, in evaluation order; a member function of the list or the map that is not modelled makes the path
-    undecidable (closed world: `absent` then really means absent)"""
+    """classify the effects on one path: every use of list_ / map_ anywhere in the executed expressions and initialisers, in
+    evaluation order.  Closed world: a member function that is not modelled, the container handed to something else, a loop
+    or a lambda working on it, a call of a non-const sibling or a store through one of its iterators make the path
+    undecidable - `absent` then really means absent.
+    -> [Ev(kind, detail, src)]; iterators are described by their role: begin | end | last | front-node (returned by the front
+    insertion) | found-node (find(key)->second) | stale-begin (begin() taken before a front insertion) | mapit | ?"""
     out = []
     key = fn.params[0]["did"] if fn.params else None
     val = fn.params[1]["did"] if len(fn.params) > 1 else None
-    front_its = set()        # iterator locals known to denote the node just put at the front
+    env = {}          # iterator locals: did -> (role, number of events before it was taken)
+    inits = {}        # locals with an initialiser on this path: did -> initialiser
+    opaque = set()    # locals that are written after their declaration or handed out by non-const reference
 
-    def calls_in_order(e):
-        # children before parents = evaluation order of nested calls
-        res = []
+    def und(what):
+        raise dtable.Undecidable("%s: %s" % (fn.loc, what))
 
-        def rec(n):
-            if n is None or n["k"] == "LambdaExpr":
-                return
-            for c in kids(n):
-                rec(c)
-            if "callee" in n and n.get("member_call") and kids(n):
-                f = match.this_field(kids(n)[0])
-                if f in ("list_", "map_"):
-                    res.append((f, n))
-        rec(e)
-        return res
+    for kind, root, _ in path_roots(lf):
+        for y in ir.walk(root):
+            w = match.unop(y, ("++", "--")) or (match.binop(y, ASSIGN_OPS) if y["k"] in ("BinaryOperator", "CompoundAssignOperator", "CXXOperatorCallExpr") else None)
+            if w:
+                r = normalize.lvalue_root(w[1])
+                if isinstance(r, int):
+                    opaque.add(r)
+            if "callee" in y and y["k"] not in ("CXXOperatorCallExpr", "CXXConstructExpr", "CXXTemporaryObjectExpr") and y["callee"]["name"] not in VALUE_CALLS:
+                for a in kids(y)[(1 if y.get("member_call") else 0):]:
+                    if a is not None and a["k"] == "DeclRefExpr" and "const" not in (a.get("ty") or ""):
+                        opaque.add(a["ref"]["id"])
 
-    def where_of(a):
-        to = match.call_named(match.strip_conv(a), ("begin", "end", "cbegin", "cend"))
-        if to is not None and "callee" in match.strip_conv(a) and match.this_field(kids(match.strip_conv(a))[0]) == "list_":
-            return to["callee"]["name"].lstrip("c")
+    def role_of(e):
+        e = peel(e)
+        if e is None:
+            return "?"
+        oc = obj_call(e)
+        if oc:
+            f, name, c = oc
+            if f == "list_":
+                if name in ("begin", "cbegin"):
+                    return "begin"
+                if name in ("end", "cend"):
+                    return "end"
+                if name in ("insert", "emplace") and len(kids(c)) > 1 and role_of(kids(c)[1]) == "begin":
+                    return "front-node"
+            elif name == "find":
+                return "mapit"
+            return "?"
+        d = ref_of(e)
+        if d is not None:
+            if d not in env:
+                return "?"
+            r, at = env[d]
+            if r == "begin":
+                mut = [x.kind for x in out[at:] if x.kind in LIST_MUT]
+                if mut:
+                    return "stale-begin" if all(k == "list.push_front" for k in mut) else "?"
+            return r
+        f = match.field_of(e)
+        if f and f[1] == "second":
+            return "found-node" if node_of(f[0]) == "mapit" else "?"
+        if "callee" in e and e["callee"]["name"] == "prev":
+            args = [a for a in kids(e) if a is not None and a["k"] != "DefaultArg"]
+            if len(args) == 1 or (len(args) == 2 and const_int(args[1]) == 1):
+                return "last" if role_of(args[0]) == "end" else "?"
+        u = match.unop(e, ("--",))
+        if u and not u[2] and role_of(u[1]) == "end":
+            return "last"
         return "?"
 
-    def handle(e, decl=None):
-        for f, c in calls_in_order(e):
-            name = c["callee"]["name"]
-            args = kids(c)[1:]
-            if f == "list_":
-                if name in LIST_PURE:
-                    if name in ("end", "cend") and decl is not None and strip_casts(kids(decl)[0]) is c:
-                        out.append(("list.end", decl["did"]))
+    def node_of(base):
+        """role of the iterator i in i->f / (*i).f"""
+        b = peel(base)
+        if b is None:
+            return "?"
+        if "callee" in b and b.get("op") == "->" and kids(b):
+            return role_of(kids(b)[0])
+        if match.deref_of(b) is not None:
+            return role_of(match.deref_of(b))
+        return "?"
+
+    def stored_detail(args):
+        """which parameters reach the stored element, through never-reassigned locals: key / key+value / "" (+ "?" when a local
+        of unknown content is involved)"""
+        seen, unknown = set(), False
+        work = list(args)
+        while work:
+            a = work.pop()
+            for z in ir.walk(a):
+                if z["k"] != "DeclRefExpr":
                     continue
-                detail = None
-                if name in ("insert", "emplace") and args:
-                    pos = where_of(args[0])
-                    if pos == "?":
-                        raise dtable.Undecidable("%s: list_.%s at a position that is not begin()/end()" % (fn.loc, name))
-                    name = "push_front" if pos == "begin" else "push_back"
-                    args = args[1:]
-                    if decl is not None:
-                        front_its.add(decl["did"])
-                if name in ("push_front", "emplace_front", "push_back", "emplace_back"):
-                    refs = [z["ref"]["id"] for a in args for z in ir.walk(a) if z["k"] == "DeclRefExpr"]
-                    detail = ("key" if key in refs else "") + ("+value" if val is not None and val in refs else "")
-                    if name == "emplace_back":
-                        name = "push_back"
-                elif name == "splice":
-                    detail = where_of(args[0]) if args else "?"
-                elif name not in ("erase", "pop_back", "pop_front", "clear", "swap"):
-                    raise dtable.Undecidable("%s: list_.%s() is not modelled" % (fn.loc, name))
-                out.append(("list." + name, detail))
+                d = z["ref"]["id"]
+                if d in seen:
+                    continue
+                seen.add(d)
+                if d in inits:
+                    if d in opaque:
+                        unknown = True
+                    work.append(inits[d])
+                elif fn.param_index(d) is None and z["ref"].get("kind") == "local":
+                    unknown = True
+        return ("key" if key in seen else "") + ("+value" if val is not None and val in seen else "") + ("?" if unknown else "")
+
+    def iter_detail(args):
+        """role of the list iterator stored in a new index entry"""
+        for a in args:
+            for z in ir.walk(a):
+                oc = obj_call(z)
+                if oc and oc[0] == "list_" and oc[1] in ("begin", "cbegin", "end", "cend", "rbegin", "insert", "emplace"):
+                    return role_of(z)
+                if z["k"] == "DeclRefExpr" and z["ref"]["id"] in env and role_of(z) in LIST_ITER_ROLES:
+                    return role_of(z)
+        return "?"
+
+    def handle_call(oc, par):
+        f, name, c = oc
+        args = [a for a in kids(c)[1:] if a is not None and a["k"] != "DefaultArg"]
+        if f == "list_":
+            if name in LIST_PURE:
+                return
+            if name in ("insert", "emplace"):
+                pos = role_of(args[0]) if args else "?"
+                if pos not in ("begin", "end"):
+                    und("list_.%s at a position that is not begin()/end()" % name)
+                name = "push_front" if pos == "begin" else "push_back"
+                args = args[1:]
+            name = {"emplace_front": "push_front", "emplace_back": "push_back"}.get(name, name)
+            if name in ("push_front", "push_back"):
+                out.append(Ev("list." + name, stored_detail(args), None))
+            elif name == "splice":
+                if len(args) != 3:
+                    und("list_.splice of a whole list / a range is not modelled")
+                out.append(Ev("list.splice", role_of(args[0]), role_of(args[2])))
+            elif name == "erase" and len(args) == 2:
+                if role_of(args[0]) == "begin" and role_of(args[1]) == "end":
+                    out.append(Ev("list.clear", None, None))
+                else:
+                    und("list_.erase of a range that is not [begin(), end())")
+            elif name == "erase" and len(args) == 1:
+                out.append(Ev("list.erase", role_of(args[0]), None))
+            elif name in ("pop_back", "pop_front", "clear") and not args:
+                out.append(Ev("list." + name, None, None))
             else:
-                if name in MAP_PURE:
-                    if name == "find":
-                        out.append(("map.find", None))
-                    continue
-                detail = None
-                if name in ("insert", "emplace", "insert_or_assign", "emplace_hint"):
-                    lb = [z for a in args for z in ir.walk(a) if "callee" in z and z["callee"]["name"] in ("begin", "end", "rbegin", "cbegin")
-                          and z.get("member_call") and match.this_field(kids(z)[0]) == "list_"]
-                    its = [z for a in args for z in ir.walk(a) if z["k"] == "DeclRefExpr" and z["ref"]["id"] in front_its]
-                    detail = lb[0]["callee"]["name"].lstrip("c") if lb else ("begin" if its else "?")
-                    name = "insert"
-                elif name not in ("erase", "clear", "swap", "operator[]"):
-                    raise dtable.Undecidable("%s: map_.%s() is not modelled" % (fn.loc, name))
-                out.append(("map." + name, detail))
-    for ev in lf["events"]:
-        if ev[0] == "decl":
-            v = ev[1]
-            if kids(v) and kids(v)[0] is not None:
-                init = kids(v)[0]
-                # an iterator local initialised with list_.begin() right after the front insertion denotes that node
-                c0 = match.strip_conv(init)
-                if "callee" in (c0 or {}) and c0.get("member_call") and match.this_field(kids(c0)[0]) == "list_" and c0["callee"]["name"] in ("begin", "cbegin") \
-                        and any(a == "list.push_front" or a == "list.emplace_front" for a, _ in out):
-                    front_its.add(v["did"])
-                handle(init, v)
-                if any(z["k"] == "UnaryOperator" and z.get("op") == "*" for z in ir.walk(init)) or \
-                        any("callee" in z and z.get("op") == "*" for z in ir.walk(init)):
-                    out.append(("read-last", None))
+                und("list_.%s() is not modelled" % name)
+        else:
+            if name in MAP_PURE:
+                return
+            if name == "find":
+                out.append(Ev("map.find", None, None))
+            elif name == "at":
+                out.append(Ev("map.at", None, None))
+            elif name == "operator[]":
+                b = match.binop(par, ("=",)) if par is not None else None
+                if b and strip_casts(b[1]) is c:
+                    out.append(Ev("map.insert", iter_detail([b[2]]), "assign"))
+                else:
+                    out.append(Ev("map.index", None, None))
+            elif name in ("insert", "emplace", "insert_or_assign", "emplace_hint", "try_emplace"):
+                out.append(Ev("map.insert", iter_detail(args), "assign" if name == "insert_or_assign" else None))
+            elif name == "erase" and len(args) == 2:
+                both = [obj_call(peel(a)) for a in args]
+                if both[0] and both[1] and both[0][0] == "map_" and both[1][0] == "map_" and both[0][1] in ("begin", "cbegin") and both[1][1] in ("end", "cend"):
+                    out.append(Ev("map.clear", None, None))
+                else:
+                    und("map_.erase of a range that is not [begin(), end())")
+            elif name == "erase" and len(args) == 1:
+                a = peel(args[0])
+                if "iterator" in ((a or {}).get("ty") or "").lower():
+                    out.append(Ev("map.erase", "it" if role_of(a) == "mapit" else "it?", None))
+                else:
+                    out.append(Ev("map.erase", "key", None))
+            elif name == "clear" and not args:
+                out.append(Ev("map.clear", None, None))
+            else:
+                und("map_.%s() is not modelled" % name)
+
+    def scan(e):
+        z = conditional_state_use(fn, e)
+        if z is not None:
+            und("the list / the map is used in a conditionally evaluated operand (line %s)" % z.get("l"))
+
+        def rec(n, par):
+            if n is None:
+                return
+            if n["k"] == "LambdaExpr":
+                if touches_state(fn, n):
+                    und("a lambda works on the list / the map")
+                return
+            nxt = par if n["k"] in CASTS or n["k"] in WRAP else n
+            for c in kids(n):
+                rec(c, nxt)
+            if n["k"] == "MemberExpr" and match.this_field(n) in ("list_", "map_"):
+                ok = False
+                if par is not None and "callee" in par and kids(par):
+                    if strip_casts(kids(par)[0]) is n and (par.get("member_call") or par["k"] == "CXXOperatorCallExpr"):
+                        ok = True
+                    else:
+                        po = obj_call(par)
+                        ok = bool(po) and po[0] == "list_" and po[1] == "splice" and match.this_field(n) == "list_"
+                if not ok:
+                    und("%s is handed to something that is not modelled (line %s)" % (match.this_field(n), n.get("l")))
+            oc = obj_call(n)
+            if oc:
+                handle_call(oc, par)
+            elif "callee" in n:
+                if is_sibling_call(n) and not n["callee"].get("const"):
+                    und("calls %s() whose effect on the list / the map is not modelled here" % n["callee"]["name"])
+                if n["k"] not in ("CXXOperatorCallExpr", "CXXConstructExpr", "CXXTemporaryObjectExpr") and n["callee"]["name"] not in VALUE_CALLS:
+                    for a in kids(n):
+                        if a is not None and a["k"] == "This":
+                            und("this is handed to %s()" % n["callee"]["name"])
+                        if a is not None and a["k"] == "DeclRefExpr" and a["ref"]["id"] in env:
+                            env[a["ref"]["id"]] = ("?", len(out))
+        rec(e, None)
+
+    for kind, root, v in path_roots(lf):
+        if kind == "loop":
+            if touches_state(fn, root):
+                und("a loop works on the list / the map (line %s)" % root.get("l"))
             continue
-        if ev[0] != "expr":
+        scan(root)
+        if kind == "decl":
+            inits[v["did"]] = root
+            r = role_of(root)
+            if r != "?" or "iterator" in (v.get("ty") or "").lower():
+                env[v["did"]] = (r, len(out))
             continue
-        e = strip_casts(ev[1])
-        handle(e)
+        if kind != "expr":
+            continue
+        e = strip_casts(root)
         u = match.unop(e, ("--", "++"))
-        if u and ref_of(u[1]) is not None:
-            out.append(("iter" + u[0], ref_of(u[1])))
-        b = match.binop(e, ("=",))
-        if b and val is not None and ref_of(b[2]) == val:
-            f = match.field_of(b[1])
-            if f and f[1] == "second":
-                out.append(("value.assign", None))
+        if u and ref_of(u[1]) in env:
+            env[ref_of(u[1])] = ("?", len(out))
+        elif u and ref_of(u[1]) is None and (normalize.lvalue_root(u[1]) in env or touches_state(fn, u[1])):
+            und("an element of the list / the map is modified in place (line %s)" % e.get("l"))
+        b = match.binop(e, ASSIGN_OPS)
+        if b:
+            d = ref_of(b[1])
+            if d is not None and d in env:
+                env[d] = (role_of(b[2]) if b[0] == "=" else "?", len(out))
+            elif d is None:
+                root_l = normalize.lvalue_root(b[1])
+                oc = obj_call(strip_casts(b[1]))
+                if touches_state(fn, b[1]) and not (oc and oc[0] == "map_" and oc[1] == "operator[]" and b[0] == "="):
+                    und("a store into the list / the map that is not modelled (line %s)" % e.get("l"))
+                if isinstance(root_l, int) and root_l in env:
+                    f = match.field_of(b[1])
+                    if b[0] == "=" and f and f[1] == "second" and node_of(f[0]) == "found-node":
+                        # it->second->second = ...: the value of the found list node
+                        det = stored_detail([b[2]])
+                        out.append(Ev("value.assign" if "+value" in det else "value.other", det, None))
+                    else:
+                        und("a store through an iterator of the list / the map is not modelled (line %s)" % e.get("l"))
     stop = lf["stop"]
     if stop[0] == "throw":
-        out.append(("throw", None))
-    if stop[0] == "return" and stop[1] and stop[1][0] is not None:
-        handle(stop[1][0])
+        out.append(Ev("throw", None, None))
     return out
 
 
@@ -129,16 +469,14 @@ def pop_roles(fn, lf):
     roles = {}
 
     def lcall(e, names):
-        e = match.strip_conv(e)
+        e = peel(e)
         c = match.call_named(e, names) if e is not None and "callee" in e else None
         if c is not None and c.get("member_call") and match.this_field(kids(c)[0]) == "list_":
             return c
         return None
 
     def role(e):
-        e = match.strip_conv(e)
-        while e is not None and e["k"] in ("ParenExpr", "CXXConstructExpr", "MaterializeTemporaryExpr", "CXXBindTemporaryExpr", "ExprWithCleanups") and kids(e):
-            e = match.strip_conv(kids(e)[0])
+        e = peel(e)
         if e is None:
             return "?"
         if lcall(e, ("end", "cend")):
@@ -153,7 +491,7 @@ def pop_roles(fn, lf):
             if len(args) == 1 or (len(args) == 2 and const_int(args[1]) == 1):
                 return "last" if role(args[0]) == "end" else "?"
         u = match.unop(e, ("--",))
-        if u and not u[2] if u and len(u) > 2 else False:
+        if u and not u[2]:
             return "last" if role(u[1]) == "end" else "?"
         return "?"
     removed, read = [], []
@@ -162,31 +500,55 @@ def pop_roles(fn, lf):
         for z in ir.walk(e):
             d_ = match.deref_of(z) if z["k"] in ("UnaryOperator", "CXXOperatorCallExpr") else None
             if d_ is not None:
-                read.append(role(d_))
+                read.append("last" if lcall(d_, ("rbegin", "crbegin")) else role(d_))
             f = match.field_of(z) if z["k"] == "MemberExpr" else None
-            if f and z.get("arrow") and ref_of(f[0]) in roles:
-                read.append(roles[ref_of(f[0])])
+            if f and z.get("arrow"):
+                b = peel(f[0])
+                if b is not None and "callee" in b and b.get("op") == "->" and kids(b):
+                    b = peel(kids(b)[0])
+                if ref_of(b) in roles:
+                    read.append(roles[ref_of(b)])
+                elif lcall(b, ("rbegin", "crbegin")):
+                    read.append("last")
+                elif lcall(b, ("begin", "cbegin", "end", "cend")):
+                    read.append(role(b))
             if lcall(z, ("back",)):
                 read.append("last")
             if lcall(z, ("front",)):
                 read.append("begin")
-    for ev in lf["events"]:
-        if ev[0] == "decl":
-            v = ev[1]
-            if kids(v) and kids(v)[0] is not None:
-                ty = v.get("ty") or ""
-                if "iterator" in ty.lower():
-                    roles[v["did"]] = role(kids(v)[0])
-                else:
-                    scan_reads(kids(v)[0])
+
+    def handed_out(e):
+        """an iterator local handed to a function by reference is no longer what it was (std::advance(it, -1) is understood)"""
+        for z in ir.walk(e):
+            if "callee" not in z or z["k"] in ("CXXOperatorCallExpr", "CXXConstructExpr", "CXXTemporaryObjectExpr") or z["callee"]["name"] in VALUE_CALLS:
+                continue
+            for a in kids(z)[(1 if z.get("member_call") else 0):]:
+                if a is not None and a["k"] == "DeclRefExpr" and a["ref"]["id"] in roles:
+                    d = a["ref"]["id"]
+                    args = [q for q in kids(z) if q is not None and q["k"] != "DefaultArg"]
+                    if z["callee"]["name"] == "advance" and len(args) == 2 and args[0] is a and const_int(args[1]) == -1:
+                        roles[d] = "last" if roles[d] == "end" else "?"
+                    else:
+                        roles[d] = "?"
+    for kind, root, v in path_roots(lf):
+        if kind == "loop":
             continue
-        if ev[0] != "expr":
+        if kind == "decl":
+            handed_out(root)
+            if "iterator" in (v.get("ty") or "").lower():
+                roles[v["did"]] = role(root)
+            else:
+                scan_reads(root)
             continue
-        e = strip_casts(ev[1])
+        if kind == "ret":
+            scan_reads(root)
+            continue
+        e = strip_casts(root)
         u = match.unop(e, ("--", "++"))
         if u and ref_of(u[1]) in roles:
             roles[ref_of(u[1])] = "last" if (u[0] == "--" and roles[ref_of(u[1])] == "end") else "?"
             continue
+        handed_out(e)
         c = lcall(e, ("pop_back",))
         if c:
             removed.append("last")
@@ -204,26 +566,71 @@ def pop_roles(fn, lf):
             roles[ref_of(b[1])] = role(b[2])
             continue
         scan_reads(e)
-    st = lf["stop"]
-    if st[0] == "return" and st[1] and st[1][0] is not None:
-        scan_reads(st[1][0])
     return removed, read
 
 
 def lru_atomize(fn):
+    """atoms: `found` = the lookup of the key parameter hit (it != map_.end(), map_.count(key), ...); `already-front` = the found
+    node is list_.begin(); size()/empty() tests are auxiliary atoms"""
+    key = fn.params[0]["did"] if fn.params else None
+
+    def on(e, field, names):
+        e = peel(e)
+        oc = obj_call(e)
+        return e if oc and oc[0] == field and oc[1] in names and oc[2].get("member_call") else None
+
+    def resolve(e, run):
+        e = peel(e)
+        d = ref_of(e)
+        if d is not None and d not in run.clobbered and isinstance(run.env.get(d), dict):
+            return peel(run.env[d])
+        return e
+
+    def is_lookup(e, run, names=("find",)):
+        c = on(resolve(e, run), "map_", names)
+        if c is None:
+            return False
+        args = [a for a in kids(c)[1:] if a is not None]
+        return key is None or (len(args) == 1 and ref_of(peel(args[0])) == key)
+
+    def is_found_node(e, run):
+        e = resolve(e, run)
+        f = match.field_of(e)
+        if not f or f[1] != "second":
+            return False
+        b = peel(f[0])
+        if b is not None and "callee" in b and b.get("op") == "->" and kids(b):
+            return is_lookup(kids(b)[0], run)
+        if b is not None and match.deref_of(b) is not None:
+            return is_lookup(match.deref_of(b), run)
+        return False
+
     def atomize(n, run):
         b = match.binop(n, ("==", "!="))
         if b:
-            sides = [b[1], b[2]]
-            ends = [match.call_named(s, ("end", "cend")) for s in sides]
-            if any(e is not None and match.this_field(kids(strip_casts(e))[0]) == "map_" for e in ends if e is not None):
-                return ("found", b[0] == "==")
-            begs = [match.call_named(s, ("begin", "cbegin")) for s in sides]
-            if any(e is not None and match.this_field(kids(strip_casts(e))[0]) == "list_" for e in begs if e is not None):
-                return ("already-front", b[0] == "!=")
-        c = match.call_named(n, ("size", "empty"))
-        if c is not None:
+            for x, y in ((b[1], b[2]), (b[2], b[1])):
+                if on(x, "map_", ("end", "cend")) is not None:
+                    return ("found", b[0] == "==") if is_lookup(y, run) else None
+                if on(x, "list_", ("begin", "cbegin")) is not None:
+                    return ("already-front", b[0] == "!=") if is_found_node(y, run) else None
+        if is_lookup(n, run, ("count", "contains")):
+            return ("found", False)
+        b = match.binop(n, ("==", "!=", ">", "<", ">=", "<="))
+        if b:
+            for x, y, op in ((b[1], b[2], b[0]), (b[2], b[1], {"<": ">", ">": "<", "<=": ">=", ">=": "<="}.get(b[0], b[0]))):
+                if is_lookup(x, run, ("count",)) and const_int(y) is not None:
+                    if (op, const_int(y)) in (("==", 0), ("<", 1), ("<=", 0)):
+                        return ("found", True)
+                    if (op, const_int(y)) in (("!=", 0), (">", 0), (">=", 1), ("==", 1)):
+                        return ("found", False)
+        def fill_level(e):
+            c = match.call_named(peel(e), ("size", "empty"))
+            return c is not None and "callee" in peel(e) and not [a for a in kids(c)[1:] if a is not None]
+        if fill_level(n):
             return ("aux:" + dtable.describe(n), False)
+        b = match.binop(n, ("==", "!=", ">", "<", ">=", "<="))
+        if b and ((fill_level(b[1]) and const_int(b[2]) is not None) or (fill_level(b[2]) and const_int(b[1]) is not None)):
+            return ("aux:" + dtable.describe(strip_casts(n)), False)
         return None
     return atomize
 
@@ -231,103 +638,164 @@ def lru_atomize(fn):
 MUTATORS = ("put", "touch", "touch_if_exists", "erase", "erase_if_exists", "get", "get_touch", "pop", "clear")
 
 
+def check_lru_fn(ck, rec, fn):
+    is_map = rec == LM
+    body = ret_as_if(with_siblings_inlined(fn), only=lambda e: conditional_state_use(fn, e) is not None)
+    leaves = dtable.explore(body, lru_atomize(fn), fn)
+    tag = "%s::%s" % (rec.split("::")[-1], fn.name)
+    bad = False
+    atoms = list(dict.fromkeys(["found"] + dtable.atoms_of(leaves)))
+
+    def und(what):
+        raise dtable.Undecidable("%s: %s" % (fn.loc, what))
+
+    def violation(lf, rule, sig, msg):
+        aux = [k for k in lf["val"] if k.startswith("aux:")]
+        if aux:
+            # the path is taken under a fill-level condition whose meaning for the rule is not known (it may make the path
+            # infeasible or the missing effect unnecessary)
+            und("%s: %s - but only under the condition %s, which is not understood" % (rule, msg, dtable.fmt_val({k: lf["val"][k] for k in aux})))
+        ck.violation(rule, fn.qname, sig, msg, fn.loc)
+
+    def judge(v_full, lf):
+        """one path under one valuation -> True if a violation was reported"""
+        bad = False
+        found = v_full["found"]
+        if fn.name in ("pop", "clear") and not found:
+            return False
+        front = lf["val"].get("already-front")
+        evs = lru_events(fn, lf)
+        kinds = [e.kind for e in evs]
+        # ---- effects that have no meaning on this path
+        if not found and ("map.index" in kinds or "map.at" in kinds):
+            und("%s uses map_[key] / map_.at(key) on the miss path (inserts / throws inside the container)" % fn.name)
+        if fn.name != "clear" and ("list.clear" in kinds or "map.clear" in kinds):
+            und("%s clears the list / the map" % fn.name)
+        if any(e.kind == "map.erase" and e.detail == "it?" for e in evs):
+            und("%s erases the index entry at an iterator of unknown origin" % fn.name)
+        for i, e in enumerate(evs):
+            if e.kind == "map.insert" and e.src == "assign" and found and not any(q.kind == "map.erase" for q in evs[:i]):
+                und("%s re-points the existing index entry (map_[key] = ... on the found path), which is not modelled" % fn.name)
+        # ---- coupling
+        le = sum(1 for k in kinds if k in ("list.erase", "list.pop_back", "list.pop_front"))
+        me = sum(1 for e in evs if e.kind == "map.erase" and (e.detail == "it" or found))     # erase(key) on the miss path removes nothing
+        if fn.name != "pop" and le != me:
+            violation(lf, "LRU-COUPLED", "%s:erase:%s" % (fn.name, found),
+                      "on the path found=%s the recency list erases %d node(s) but the index map erases %d entry(ies)" % (found, le, me))
+            bad = True
+        lp = sum(1 for k in kinds if k in ("list.push_front", "list.push_back"))
+        mi = kinds.count("map.insert")
+        if lp != mi:
+            violation(lf, "LRU-COUPLED", "%s:insert:%s" % (fn.name, found),
+                      "on the path found=%s %d list insertion(s) but %d index insertion(s)" % (found, lp, mi))
+            bad = True
+        if lp and mi:
+            li = [i for i, k in enumerate(kinds) if k in ("list.push_front", "list.push_back")][0]
+            mi_i = kinds.index("map.insert")
+            if mi_i < li:
+                if evs[mi_i].detail == "?":
+                    und("the index entry is created before the list node with an iterator that is not understood")
+                violation(lf, "LRU-COUPLED", fn.name + ":order", "the index entry is created before the list node it must point to")
+                bad = True
+        if fn.name == "pop":
+            removed, read = pop_roles(fn, lf)
+            if len(removed) != le:
+                und("which node pop() removes is not understood (%d removal(s), roles %s)" % (le, removed))
+            if not (le == 1 and me == 1):
+                violation(lf, "LRU-COUPLED", "pop:pair", "pop() must remove exactly one list node and its index entry")
+                bad = True
+        if fn.name == "clear" and not ("list.clear" in kinds and "map.clear" in kinds):
+            violation(lf, "LRU-COUPLED", "clear:both", "clear() must clear both the recency list and the index")
+            bad = True
+        # ---- end roles: MRU = front, eviction = back
+        for e in evs:
+            wrong = False
+            if e.kind == "list.push_back" or (e.kind == "list.pop_front" and fn.name != "pop"):
+                wrong = True
+            elif e.kind == "list.splice" and e.detail != "begin":
+                if e.detail == "?":
+                    und("%s: the position list_.splice moves the node to is not understood" % fn.name)
+                wrong = True
+            elif e.kind == "map.insert" and lp and e.detail not in ("begin", "front-node"):
+                if e.detail == "?":
+                    und("%s: the list iterator stored in the new index entry is not understood" % fn.name)
+                wrong = True
+            if wrong:
+                violation(lf, "LRU-ENDS", "%s:%s" % (fn.name, e.kind), "%s uses the wrong end of the recency list (most recent = front, evicted = back): %s %s"
+                          % (fn.name, e.kind, e.detail or ""))
+                bad = True
+        if fn.name == "pop":
+            if "?" in removed or "?" in read or not read:
+                und("which node pop() reads / removes is not understood (removed %s, read %s)" % (removed, read))
+            if any(r != "last" for r in removed):
+                violation(lf, "LRU-ENDS", "pop:list.pop_front", "pop() removes the %s of the recency list (most recent = front, evicted = back)"
+                          % ("front" if "begin" in removed else "end()"))
+                bad = True
+            elif any(r != "last" for r in read):
+                violation(lf, "LRU-ENDS", "pop:last", "pop() does not read the last element of the recency list (--end())")
+                bad = True
+        if fn.name in ("touch", "touch_if_exists", "get_touch") and found and "list.splice" not in kinds and front is not True:
+            violation(lf, "LRU-ENDS", fn.name + ":no-touch", "%s does not move the key to the front on the found path" % fn.name)
+            bad = True
+        # ---- exceptions
+        throws = "throw" in kinds
+        if fn.name in ("touch", "erase", "get", "get_touch"):
+            if found is False and not throws:
+                violation(lf, "LRU-THROW-GUARD", fn.name + ":miss", "%s on an absent key does not throw" % fn.name)
+                bad = True
+            if found and throws:
+                violation(lf, "LRU-THROW-GUARD", fn.name + ":hit", "%s throws although the key is present" % fn.name)
+                bad = True
+        elif throws:
+            violation(lf, "LRU-THROW-GUARD", fn.name + ":throws", "%s must not throw" % fn.name)
+            bad = True
+        if found is False:
+            # the iterator returned by the failed lookup is end(): using it or the node it `points to` is the defect
+            uses = [e for e in evs if (e.kind == "list.erase" and e.detail in ("found-node", "?")) or (e.kind == "map.erase" and e.detail == "it")
+                    or (e.kind == "list.splice" and (e.src in ("found-node", "?") or e.detail == "found-node"))]
+            if any("?" in (e.detail, e.src) for e in uses):
+                und("%s: an iterator used on the miss path is not understood" % fn.name)
+            if uses:
+                violation(lf, "LRU-THROW-GUARD", fn.name + ":miss-deref", "the miss path uses the end() iterator")
+                bad = True
+        # ---- put stores the element
+        if fn.name == "put" and not throws:
+            pushes = [e for e in evs if e.kind == "list.push_front"]
+            stored = any("key" in e.detail and (not is_map or "+value" in e.detail) for e in pushes) or ("value.assign" in kinds)
+            # a set that finds the key has it stored already: moving the node to the front (or finding it there) is all put() owes
+            moved_ok = (not is_map) and found and any(e.kind == "list.splice" and e.detail == "begin" and e.src == "found-node" for e in evs) \
+                and not any(k in ("list.erase", "list.pop_back", "list.pop_front", "map.erase") for k in kinds)
+            unchanged_ok = (not is_map) and front is True and not any(k.startswith("list.") or k.startswith("map.e") for k in kinds)
+            if not (stored or moved_ok or unchanged_ok):
+                if any("?" in e.detail for e in pushes) or any(e.kind == "value.other" and "?" in (e.detail or "") for e in evs):
+                    und("put(): what is stored in the new list node is not understood")
+                violation(lf, "LRU-PUT-STORES", "put:%s" % dtable.fmt_val(lf["val"]),
+                          "put() has a path (%s) that returns without storing the given %s" % (dtable.fmt_val(lf["val"]), "value" if is_map else "key"))
+                bad = True
+        return bad
+
+    pending = None
+    for v_full, lf in dtable.table(leaves, None, atoms):
+        try:
+            bad = judge(v_full, lf) or bad
+        except dtable.Undecidable as e:      # the other paths are still judged: what they violate is reported
+            pending = pending or e
+    if pending is not None:
+        raise pending
+    if not bad:
+        ck.ok("LRU-COUPLED", tag, "%d paths: list and index change together" % len(leaves))
+        ck.ok("LRU-ENDS", tag, "front = most recent, back = evicted", nontrivial=fn.name in ("put", "touch", "touch_if_exists", "get_touch", "pop"))
+        if fn.name in ("touch", "erase", "get", "get_touch"):
+            ck.ok("LRU-THROW-GUARD", tag, "throws exactly on the miss path, no iterator use there")
+        if fn.name == "put":
+            ck.ok("LRU-PUT-STORES", tag, "every normal path stores the given %s" % ("key and value" if is_map else "key"))
+
+
 def check_lru(ck, tu):
-    summaries = {}
     for rec in (LS, LM):
-        is_map = rec == LM
         for fn in tu.find(record=rec):
-            if fn.name not in MUTATORS:
-                continue
-            leaves = dtable.explore(fn.body, lru_atomize(fn), fn)
-            tag = "%s::%s" % (rec.split("::")[-1], fn.name)
-            bad = False
-            per_path = []
-            atoms = list(dict.fromkeys(["found"] + dtable.atoms_of(leaves)))
-            for v_full, lf in dtable.table(leaves, None, atoms):
-                found = v_full["found"]
-                if fn.name in ("pop", "clear") and not found:
-                    continue
-                evs = lru_events(fn, lf)
-                kinds = [e[0] for e in evs]
-                per_path.append((found, lf["val"].get("already-front"), [(a, b if isinstance(b, str) else None) for a, b in evs if a not in ("map.find", "list.end")]))
-                # ---- coupling
-                le, me = kinds.count("list.erase"), kinds.count("map.erase")
-                if fn.name != "pop" and le != me:
-                    ck.violation("LRU-COUPLED", fn.qname, "%s:erase:%s" % (fn.name, found),
-                                 "on the path found=%s the recency list erases %d node(s) but the index map erases %d entry(ies)" % (found, le, me), fn.loc)
-                    bad = True
-                lp = sum(1 for k in kinds if k in ("list.push_front", "list.emplace_front", "list.push_back"))
-                mi = sum(1 for k in kinds if k in ("map.insert", "map.emplace"))
-                if lp != mi:
-                    ck.violation("LRU-COUPLED", fn.qname, "%s:insert:%s" % (fn.name, found),
-                                 "on the path found=%s %d list insertion(s) but %d index insertion(s)" % (found, lp, mi), fn.loc)
-                    bad = True
-                if lp and mi:
-                    li = [i for i, k in enumerate(kinds) if k in ("list.push_front", "list.emplace_front", "list.push_back")][0]
-                    mi_i = [i for i, k in enumerate(kinds) if k in ("map.insert", "map.emplace")][0]
-                    if mi_i < li:
-                        ck.violation("LRU-COUPLED", fn.qname, fn.name + ":order", "the index entry is created before the list node it must point to", fn.loc)
-                        bad = True
-                if fn.name == "pop":
-                    removed, read = pop_roles(fn, lf)
-                    if not (len(removed) == 1 and me == 1):
-                        ck.violation("LRU-COUPLED", fn.qname, "pop:pair", "pop() must remove exactly one list node and its index entry", fn.loc)
-                        bad = True
-                if fn.name == "clear" and not ("list.clear" in kinds and "map.clear" in kinds):
-                    ck.violation("LRU-COUPLED", fn.qname, "clear:both", "clear() must clear both the recency list and the index", fn.loc)
-                    bad = True
-                # ---- end roles: MRU = front, eviction = back
-                for a, b in evs:
-                    if a in ("list.push_back",) or (a == "list.splice" and b not in ("begin", "cbegin")) or (a == "map.insert" and lp and b not in ("begin",)) \
-                            or (a == "list.pop_front" and fn.name != "pop"):
-                        ck.violation("LRU-ENDS", fn.qname, "%s:%s" % (fn.name, a), "%s uses the wrong end of the recency list (most recent = front, evicted = back): %s %s"
-                                     % (fn.name, a, b or ""), fn.loc)
-                        bad = True
-                if fn.name == "pop":
-                    if "?" in removed or "?" in read or not read:
-                        raise dtable.Undecidable("%s: which node pop() reads / removes is not understood (removed %s, read %s)" % (fn.loc, removed, read))
-                    if any(r != "last" for r in removed):
-                        ck.violation("LRU-ENDS", fn.qname, "pop:list.pop_front", "pop() removes the %s of the recency list (most recent = front, evicted = back)"
-                                     % ("front" if "begin" in removed else "end()"), fn.loc)
-                        bad = True
-                    elif any(r != "last" for r in read):
-                        ck.violation("LRU-ENDS", fn.qname, "pop:last", "pop() does not read the last element of the recency list (--end())", fn.loc)
-                        bad = True
-                if fn.name in ("touch", "touch_if_exists", "get_touch") and found and "list.splice" not in kinds:
-                    ck.violation("LRU-ENDS", fn.qname, fn.name + ":no-touch", "%s does not move the key to the front on the found path" % fn.name, fn.loc)
-                    bad = True
-                # ---- exceptions
-                throws = "throw" in kinds
-                if fn.name in ("touch", "erase", "get", "get_touch"):
-                    if found is False and not throws:
-                        ck.violation("LRU-THROW-GUARD", fn.qname, fn.name + ":miss", "%s on an absent key does not throw" % fn.name, fn.loc)
-                        bad = True
-                    if found and throws:
-                        ck.violation("LRU-THROW-GUARD", fn.qname, fn.name + ":hit", "%s throws although the key is present" % fn.name, fn.loc)
-                        bad = True
-                elif throws:
-                    ck.violation("LRU-THROW-GUARD", fn.qname, fn.name + ":throws", "%s must not throw" % fn.name, fn.loc)
-                    bad = True
-                if found is False and any(a in ("list.erase", "list.splice", "map.erase") for a in kinds):
-                    ck.violation("LRU-THROW-GUARD", fn.qname, fn.name + ":miss-deref", "the miss path uses the end() iterator", fn.loc)
-                    bad = True
-                # ---- put stores the element
-                if fn.name == "put" and not throws:
-                    stored = any(a in ("list.push_front", "list.emplace_front") and "key" in (b or "") and (not is_map or "+value" in (b or "")) for a, b in evs) \
-                        or ("value.assign" in kinds)
-                    unchanged_ok = (not is_map) and lf["val"].get("already-front") is True and not any(k.startswith("list.") or k.startswith("map.e") for k in kinds)
-                    if not (stored or unchanged_ok):
-                        ck.violation("LRU-PUT-STORES", fn.qname, "put:%s" % dtable.fmt_val(lf["val"]),
-                                     "put() has a path (%s) that returns without storing the given %s" % (dtable.fmt_val(lf["val"]), "value" if is_map else "key"), fn.loc)
-                        bad = True
-            summaries[(rec, fn.name)] = sorted(str(p) for p in per_path)
-            if not bad:
-                ck.ok("LRU-COUPLED", tag, "%d paths: list and index change together" % len(leaves))
-                ck.ok("LRU-ENDS", tag, "front = most recent, back = evicted", nontrivial=fn.name in ("put", "touch", "touch_if_exists", "get_touch", "pop"))
-                if fn.name in ("touch", "erase", "get", "get_touch"):
-                    ck.ok("LRU-THROW-GUARD", tag, "throws exactly on the miss path, no iterator use there")
-                if fn.name == "put":
-                    ck.ok("LRU-PUT-STORES", tag, "every normal path stores the given %s" % ("key and value" if is_map else "key"))
+            if fn.name in MUTATORS:
+                ck.guarded(lambda rec=rec, fn=fn: check_lru_fn(ck, rec, fn))
 
 
 # ------------------------------------------------------------------ SplayTree
@@ -361,8 +829,8 @@ def null_tests(fn):
         flat(c)
         for n in conj:
             b = match.binop(n, ("==", "!="))
-            if b and (strip_casts(b[2])["k"] == "NullPtr" or strip_casts(b[1])["k"] == "NullPtr"):
-                e = b[1] if strip_casts(b[2])["k"] == "NullPtr" else b[2]
+            if b and (is_null(b[2]) or is_null(b[1])):
+                e = b[1] if is_null(b[2]) else b[2]
                 out.append((e, b[0] == "!=", x, len(conj) == 1))
             pt = match.ptr_truth(n)
             if pt is not None:
@@ -402,13 +870,660 @@ def and_guarded(fn, expr, node):
             if any(y is n for y in ir.walk(r)) or r is n:
                 for c in ir.walk(l):
                     b = match.binop(c, ("!=",))
-                    if b and strip_casts(b[2])["k"] == "NullPtr" and match.same_expr(b[1], expr):
+                    if b and is_null(b[2]) and match.same_expr(b[1], expr):
                         return True
                     pt = match.ptr_truth(c)
                     if pt is not None and match.same_expr(pt, expr):
                         return True
         n, par = par, fn.parent(par)
     return False
+
+
+def by_ref_uses(fn, g, designates, skip=()):
+    """positions at which an lvalue selected by `designates` is handed to a call by reference or has its address taken:
+    writes the rules cannot see"""
+    out = []
+    for y in ir.walk(fn.body):
+        hit = False
+        if "callee" in y and y["k"] not in ("CXXOperatorCallExpr", "CXXConstructExpr", "CXXTemporaryObjectExpr") and not any(y is s for s in skip):
+            hit = any(a is not None and a["k"] in ("MemberExpr", "DeclRefExpr") and designates(a) for a in kids(y)[(1 if y.get("member_call") else 0):])
+        if y["k"] == "UnaryOperator" and y.get("op") == "&" and kids(y) and designates(kids(y)[0]):
+            hit = True
+        if hit:
+            p = g.pos(y) or g.pos_deep(y)
+            if p:
+                out.append(p)
+    return out
+
+
+def null_eval(fn, x):
+    """SPLAY-NULL by path evaluation (decision table over the null tests of the function): splay() returns null exactly for a
+    null tree, so the result - and every copy of it - carries the nullness of the argument.  A dereference of the result is
+    fine where that nullness has been tested `non-null` on the path.
+    -> None if every dereference is covered, else (dereferencing node, valuation of the path) - a concrete path on which the
+    tree may be empty when the result is dereferenced"""
+    body = ret_as_if(fn.body)
+
+    def und(what):
+        raise dtable.Undecidable("%s: SPLAY-NULL: %s" % (fn.loc, what))
+
+    def pkey(e):
+        e = strip_casts(e)
+        if e is None:
+            return None
+        if e["k"] == "DeclRefExpr":
+            return ("v", e["ref"]["id"])
+        if e["k"] == "MemberExpr" and kids(e):
+            b = strip_casts(kids(e)[0])
+            if b is not None and b["k"] == "This":
+                return ("this", e["member"])
+            p = pkey(b)
+            return p + (e["member"],) if p is not None else None
+        return None
+
+    class St:
+        def __init__(self):
+            self.keys, self.n, self.kx, self.done, self.bad, self.opaque = {}, 0, None, 0, [], []
+
+    def st(run):
+        if not hasattr(run, "nst"):
+            run.nst = St()
+        return run.nst
+
+    def fresh(s):
+        s.n += 1
+        return "p%d" % s.n
+
+    def key_for(s, p):
+        if p not in s.keys:
+            s.keys[p] = fresh(s)
+        return s.keys[p]
+
+    def invalidate(s, lhs):
+        p = pkey(lhs)
+        if p is None:
+            mentioned = {z["ref"]["id"] for z in ir.walk(lhs) if z["k"] == "DeclRefExpr"}
+            for q in list(s.keys):
+                if len(q) > 2 or (q[0] == "v" and q[1] in mentioned):
+                    del s.keys[q]
+        elif len(p) == 2:
+            for q in list(s.keys):
+                if q[:2] == p:
+                    del s.keys[q]
+        else:
+            for q in list(s.keys):
+                if len(q) > 2 and p[-1] in q[2:]:
+                    del s.keys[q]
+
+    def check_derefs(s, run, e):
+        if s.kx is None or e is None:
+            return
+
+        def rec(n, guarded):
+            if n is None or n["k"] == "LambdaExpr":
+                return
+            base = None
+            if n["k"] == "MemberExpr" and n.get("arrow") and kids(n):
+                base = kids(n)[0]
+            elif n["k"] == "UnaryOperator" and n.get("op") == "*" and kids(n):
+                base = kids(n)[0]
+            if base is not None:
+                p = pkey(base)
+                k = s.keys.get(p) if p is not None else None
+                if k is not None and k == s.kx and k != "NONNULL" and run.val.get(k) is not True:
+                    if guarded:
+                        und("a dereference of the splay() result inside a nested conditional expression (line %s)" % n.get("l"))
+                    if not s.opaque:
+                        s.opaque.extend(k_ for k_ in run.val if k_.startswith("flag:"))
+                    if s.opaque:
+                        # a condition the evaluation does not understand was passed on the way: it may imply a non-empty tree
+                        und("whether `%s` guards the dereference at line %s is not understood" % (s.opaque[0], n.get("l")))
+                    s.bad.append(n)
+            g2 = guarded or n["k"] == "ConditionalOperator" or (n["k"] == "BinaryOperator" and n.get("op") in ("&&", "||"))
+            for c in kids(n):
+                rec(c, g2)
+        rec(e, False)
+
+    def value_key(s, run, rhs):
+        r = strip_casts(rhs)
+        if r is None:
+            return fresh(s)
+        if is_null(r):
+            return "NULL"
+        if r["k"] == "CXXNewExpr":
+            return "NONNULL"
+        if r is x or (r["k"] == "CallExpr" and match.call_named(r, ("splay",)) is not None and len(kids(r)) > 1):
+            k = value_key(s, run, kids(r)[1])
+            if r is x:
+                s.kx = k
+            return k
+        if r["k"] == "BinaryOperator" and r.get("op") == "=":
+            return do_assign(s, run, kids(r)[0], kids(r)[1])
+        p = pkey(r)
+        return key_for(s, p) if p is not None else fresh(s)
+
+    def do_assign(s, run, lhs, rhs):
+        check_derefs(s, run, rhs)
+        check_derefs(s, run, lhs)
+        k = value_key(s, run, rhs)
+        side_effects(s, run, rhs, top_assign=True)
+        invalidate(s, lhs)
+        p = pkey(lhs)
+        if p is not None:
+            s.keys[p] = k
+        return k
+
+    def side_effects(s, run, e, top_assign=False):
+        """writes the evaluation does not follow: forget what was known about their targets"""
+        for y in ir.walk(e):
+            if y["k"] == "LambdaExpr":
+                continue
+            if not top_assign:
+                w = match.unop(y, ("++", "--")) or (match.binop(y, ASSIGN_OPS) if y["k"] in ("BinaryOperator", "CompoundAssignOperator") else None)
+                if w:
+                    invalidate(s, w[1])
+            if "callee" in y and y["k"] in ("CallExpr", "CXXMemberCallExpr"):
+                for a in kids(y)[(1 if y.get("member_call") else 0):]:
+                    if a is not None and a["k"] in ("DeclRefExpr", "MemberExpr"):
+                        invalidate(s, a)
+                if is_sibling_call(y) and not y["callee"].get("const"):
+                    for q in list(s.keys):
+                        if q[0] == "this":
+                            del s.keys[q]
+                if y is x and s.kx is None:
+                    s.kx = value_key(s, run, kids(y)[1])
+
+    def process_expr(s, run, e):
+        e0 = strip_casts(e)
+        if e0 is None:
+            return
+        if e0["k"] == "BinaryOperator" and e0.get("op") == "=":
+            do_assign(s, run, kids(e0)[0], kids(e0)[1])
+            return
+        check_derefs(s, run, e0)
+        side_effects(s, run, e0)
+
+    def catch_up(s, run):
+        evs = run.events
+        while s.done < len(evs):
+            ev = evs[s.done]
+            s.done += 1
+            if ev[0] == "decl":
+                v = ev[1]
+                init = kids(v)[0] if kids(v) else None
+                if init is None:
+                    continue
+                ty = (v.get("ty") or "").replace(" ", "")
+                if ty.endswith("*&") or ty.endswith("*const&"):
+                    und("a reference to a pointer (%s) is not followed" % v.get("name"))
+                check_derefs(s, run, init)
+                k = value_key(s, run, init)
+                side_effects(s, run, init, top_assign=True)
+                s.keys[("v", v["did"])] = k
+            elif ev[0] == "expr":
+                process_expr(s, run, ev[1])
+            elif ev[0] == "loop":
+                loop = ev[1]
+                if s.kx is not None:
+                    before = len(s.bad)
+                    check_derefs(s, run, loop)
+                    if len(s.bad) > before:
+                        und("the splay() result is dereferenced inside a loop whose guards are not evaluated (line %s)" % loop.get("l"))
+                if any(y is x for y in ir.walk(loop)):
+                    und("splay() is called inside a loop")
+                for y in ir.walk(loop):
+                    w = match.unop(y, ("++", "--")) or (match.binop(y, ASSIGN_OPS) if y["k"] in ("BinaryOperator", "CompoundAssignOperator") else None)
+                    if w:
+                        invalidate(s, w[1])
+                side_effects(s, run, loop)
+
+    def special(n, run):
+        s = st(run)
+        catch_up(s, run)
+        e, neg = None, False
+        bb = match.binop(n, ("==", "!="))
+        if bb:
+            for l, r in ((bb[1], bb[2]), (bb[2], bb[1])):
+                if is_null(r) and "*" in (strip_casts(l).get("ty") or ""):
+                    e, neg = l, bb[0] == "=="
+                    break
+        if e is None and match.ptr_truth(n) is not None:
+            e = match.ptr_truth(n)
+        if e is not None:
+            ee = strip_casts(e)
+            if ee["k"] == "BinaryOperator" and ee.get("op") == "=":
+                k = do_assign(s, run, kids(ee)[0], kids(ee)[1])
+            else:
+                check_derefs(s, run, ee)
+                p = pkey(ee)
+                k = key_for(s, p) if p is not None else None
+            if k == "NULL":
+                return neg
+            if k == "NONNULL":
+                return not neg
+            if k is not None:
+                return (k, neg)
+        return None
+
+    def atomize(n, run):
+        r = generic(n, run)
+        if isinstance(r, tuple) and r[0].startswith("c:"):
+            s = st(run)
+            check_derefs(s, run, n)
+            side_effects(s, run, n)
+            if match.functor_call(strip_casts(n)) is None:      # key comparisons say nothing about an empty tree
+                s.opaque.append(r[0][2:])
+        return r
+    generic = opaque_atomize(special)
+    leaves = dtable.explore(body, atomize, fn)
+    activated = False
+    for lf in leaves:
+        s = st(lf["run"])
+        catch_up(s, lf["run"])
+        stp = lf["stop"]
+        if stp[0] == "return" and stp[1] and stp[1][0] is not None:
+            process_expr(s, lf["run"], stp[1][0])
+        activated = activated or s.kx is not None
+        if s.bad:
+            return s.bad[0], lf["val"]
+    if not activated:
+        und("the splay() call is not on a path the evaluation follows")
+    return None
+
+
+def splay_calls(ck, fn, tag, x, g):
+    """SPLAY-WRITEBACK and SPLAY-NULL at one splay() call"""
+    arg = kids(x)[1]
+    root = is_root(arg, fn)
+    # where does the result go?
+    dest = None
+    p = fn.parent(x)
+    while p is not None and (p["k"] in CASTS or p["k"] in WRAP):
+        p = fn.parent(p)
+    if p is not None:
+        b = match.binop(p, ("=",))
+        if b and strip_casts(b[2]) is x:
+            dest = b[1]
+        elif p["k"] == "VarDecl":
+            dest = p
+    if root:
+        # the (possibly different) root returned by splay must be stored back on every path
+        ok_wb = dest is not None and dest.get("k") != "VarDecl" and is_root(dest, fn) == root
+        if not ok_wb:
+            pc = g.pos_deep(x)
+            if not pc:
+                raise dtable.Undecidable("%s: SPLAY-WRITEBACK: the splay() call has no position in the control flow graph" % fn.nloc(x))
+            asg = [y for y in ir.walk(fn.body) if match.binop(y, ("=",)) and is_root(match.binop(y, ("=",))[1], fn) == root]
+            asg_pos = [q for q in ((g.pos(y) or g.pos_deep(y)) for y in asg) if q]
+            if asg_pos and g.path_avoiding(pc, asg_pos) is None:
+                ok_wb = True
+            else:
+                # a path on which no assignment to the root follows: evidence, unless the root can be written in a way this rule
+                # does not see or the missing assignment is conditional on a comparison with the root itself
+                hidden = by_ref_uses(fn, g, lambda a: is_root(a, fn) == root, skip=(x,))
+                if hidden and g.path_avoiding(pc, asg_pos + hidden) is None:
+                    raise dtable.Undecidable("%s: SPLAY-WRITEBACK: %s is handed out by reference after splay(); whether the new root is stored is not understood"
+                                             % (fn.nloc(x), root))
+                for y in ir.walk(fn.body):
+                    c = match.binop(y, ("==", "!="))
+                    if c and ((is_root(c[1], fn) == root and not is_null(c[2])) or (is_root(c[2], fn) == root and not is_null(c[1]))):
+                        raise dtable.Undecidable("%s: SPLAY-WRITEBACK: the write-back of %s depends on a comparison with the old root" % (fn.nloc(y), root))
+        if ok_wb:
+            ck.ok("SPLAY-WRITEBACK", "%s @%s" % (tag, fn.nloc(x)), "result of splay(%s) is stored back into %s on every path" % (root, root))
+        else:
+            ck.violation("SPLAY-WRITEBACK", fn.qname, "%s:%s" % (fn.name, root),
+                         "splay() restructures the tree below %s but there is a path on which the new root is not stored back: the nodes above the old root are lost"
+                         % root, fn.nloc(x))
+    # null contradiction: result dereferenced while the argument may be null
+    if dest is not None:
+        derefs = []
+        for y in ir.walk(fn.body):
+            if y["k"] == "MemberExpr" and y.get("arrow") and kids(y):
+                base = kids(y)[0]
+                same = (dest.get("k") == "VarDecl" and ref_of(base) == dest.get("did")) or \
+                       (dest.get("k") != "VarDecl" and match.same_expr(base, dest))
+                if same and g.pos_deep(y) and g.pos_deep(x) and g.reachable(g.pos_deep(x), g.pos_deep(y)):
+                    derefs.append(y)
+        if derefs:
+            okn = guarded_nonnull(fn, g, arg, x)
+            if not okn and dest.get("k") != "VarDecl":
+                okn = all(guarded_nonnull(fn, g, dest, d) or and_guarded(fn, dest, d) for d in derefs)
+            how = "only where the argument is known non-null"
+            cex = None
+            if not okn:
+                # no guard of a known shape: decide by evaluating the paths
+                cex = null_eval(fn, x)
+                how = "only on paths on which the tree was tested non-empty (path evaluation)"
+            if cex is None:
+                ck.ok("SPLAY-NULL", "%s @%s" % (tag, fn.nloc(x)), "splay(%s) result is dereferenced %s" % (dtable.describe(arg), how))
+            else:
+                ck.violation("SPLAY-NULL", fn.qname, "%s:%s" % (fn.name, dtable.describe(arg)),
+                             "splay() returns null for a null tree (the code itself treats %s as nullable elsewhere) but the result is dereferenced unguarded"
+                             % dtable.describe(arg) + (" on the path %s" % dtable.fmt_val(cex[1]) if cex[1] else ""), fn.nloc(cex[0]))
+
+
+def check_owner(ck, tu, fn, tag, x, c, g):
+    """SPLAY-OWNER at one splay_traverse_postorder(delete...) call: afterwards root_ must not keep the freed tree"""
+    targ = peel(kids(c)[1]) if len(kids(c)) > 1 else None
+    pc = g.pos_deep(x)
+
+    def und(what):
+        raise dtable.Undecidable("%s: SPLAY-OWNER: %s" % (fn.nloc(x), what))
+    if targ is None or not pc:
+        und("the traversal call is not understood")
+    all_asg = [y for y in ir.walk(fn.body) if match.binop(y, ("=",)) and match.this_field(match.binop(y, ("=",))[1]) == "root_"]
+    null_asg = [y for y in all_asg if is_null(match.binop(y, ("=",))[2])]
+    pos = lambda ys: [q for q in ((g.pos(y) or g.pos_deep(y)) for y in ys) if q]   # noqa: E731
+    hidden = by_ref_uses(fn, g, lambda a: match.this_field(a) == "root_")
+    ok = False
+    if match.this_field(targ) == "root_":
+        if null_asg and g.path_avoiding(pc, pos(null_asg)) is None:
+            ok = True
+        elif (all_asg or hidden) and g.path_avoiding(pc, pos(all_asg) + hidden) is None:
+            und("root_ is rewritten after the deletion in a way that is not understood")
+        # else: a path to the exit on which root_ is not written at all after its tree was freed
+    elif "callee" in targ and targ["callee"]["name"] == "exchange" and len(kids(targ)) == 2 and match.this_field(kids(targ)[0]) == "root_" \
+            and is_null(kids(targ)[1]):
+        ok = True
+    elif ref_of(targ) is not None:
+        # the tree is deleted through a copy of the root taken before: root_ must have been reset in between
+        decl = [y for y in ir.walk(fn.body) if y["k"] == "VarDecl" and y.get("did") == ref_of(targ) and kids(y) and kids(y)[0] is not None
+                and match.this_field(kids(y)[0]) == "root_"]
+        pd = g.pos_deep(decl[0]) if decl else None
+        writes = pos(all_asg) + hidden
+        if pd and len(all_asg) == len(null_asg) and not hidden and any(g.dominates(pd, q) and g.dominates(q, pc) for q in pos(null_asg)):
+            ok = True
+        elif pd and g.dominates(pd, pc) and null_asg and g.path_avoiding(pc, pos(null_asg)) is None and g.path_between_avoiding(pd, pc, writes) is not None:
+            ok = True           # still the root when deleted, reset afterwards on every path
+        elif pd and g.dominates(pd, pc) and g.path_between_avoiding(pd, pc, writes) is not None and g.path_avoiding(pc, writes) is not None:
+            pass                # root_ is never written between the copy, the deletion and the exit: it keeps the freed tree
+        else:
+            und("the deleted tree %s is not understood as the (reset) root" % dtable.describe(targ))
+    else:
+        und("the deleted tree %s is not understood" % dtable.describe(targ))
+    if ok:
+        ck.ok("SPLAY-OWNER", tag, "root_ is reset after all nodes were deleted")
+    else:
+        ck.violation("SPLAY-OWNER", fn.qname, fn.name + ":root_", "all nodes are deleted but root_ keeps pointing to freed memory (reuse or destructor -> double free)", fn.nloc(x))
+
+
+def check_links(ck, fn, g):
+    """SPLAY-LINK: a child link may only be overwritten when saved before or known null"""
+    reassigned = set()
+    for y in ir.walk(fn.body):
+        w = match.unop(y, ("++", "--")) or (match.binop(y, ASSIGN_OPS) if y["k"] in ("BinaryOperator", "CompoundAssignOperator") else None)
+        if w and ref_of(w[1]) is not None:
+            reassigned.add(ref_of(w[1]))
+
+    def canon(d, depth=0):
+        """a never-reassigned local that is a plain copy of a never-reassigned variable stands for that variable"""
+        if d is None or d in reassigned or depth > 4:
+            return d
+        init = single_init(fn, d)
+        src = ref_of(init) if init is not None and strip_casts(init)["k"] == "DeclRefExpr" else None
+        if src is None or src in reassigned:
+            return d
+        return canon(src, depth + 1)
+
+    def var_of(e):
+        return canon(ref_of(e))
+
+    def judge(x, tnode):
+        base = kids(tnode)[0]
+        bref = var_of(base)
+        if bref is None:
+            raise dtable.Undecidable("%s: SPLAY-LINK: the node whose %s link is overwritten (%s) is not a plain variable"
+                                     % (fn.nloc(x), tnode["member"], dtable.describe(base)))
+        # fresh node parameter (splay_insert's nn) or an earlier read of the same link or a null test
+        fresh = fn.name == "splay_insert" and bref == fn.params[0]["did"]
+        px = g.pos_deep(x)
+        read_before = False
+        foreign = None          # a read of the same link through an expression that is not a plain variable: may be the same node
+        aliases = {bref}
+        for y in ir.walk(fn.body):
+            bb = match.binop(y, ("=",))
+            if bb and var_of(bb[1]) == bref and strip_casts(bb[1])["k"] == "DeclRefExpr" and ref_of(bb[2]) is not None \
+                    and strip_casts(bb[2])["k"] == "DeclRefExpr":
+                aliases.add(var_of(bb[2]))
+            if y["k"] == "VarDecl" and canon(y.get("did")) == bref and kids(y) and kids(y)[0] is not None and ref_of(kids(y)[0]) is not None:
+                aliases.add(var_of(kids(y)[0]))
+        for y in ir.walk(fn.body):
+            if y is tnode or y["k"] != "MemberExpr" or y.get("member") != tnode["member"] or not kids(y):
+                continue
+            # is y read (not the lhs of an assignment)?
+            par = fn.parent(y)
+            is_lhs = par is not None and match.binop(par, ("=",)) and strip_casts(match.binop(par, ("=",))[1]) is y
+            py = g.pos_deep(y)
+            if ref_of(kids(y)[0]) is None:
+                if not is_lhs and py and px and (g.reachable(py, px) or py == px):
+                    foreign = y
+                continue
+            if var_of(kids(y)[0]) not in aliases:
+                continue
+            if not is_lhs and py and px and (g.reachable(py, px) or py == px or var_of(kids(y)[0]) != bref):
+                read_before = True
+        nulltest = guarded_null(fn, g, tnode, x)
+        if not (fresh or read_before or nulltest) and foreign is None and px:
+            # the same link read through another variable that was copied from / to this one before the write
+            may = {bref}
+            copies = []
+            for y in ir.walk(fn.body):
+                bb = match.binop(y, ("=",))
+                if bb and strip_casts(bb[1])["k"] == "DeclRefExpr" and strip_casts(bb[2])["k"] == "DeclRefExpr":
+                    copies.append((var_of(bb[1]), var_of(bb[2]), g.pos_deep(y)))
+                if y["k"] == "VarDecl" and kids(y) and kids(y)[0] is not None and strip_casts(kids(y)[0])["k"] == "DeclRefExpr":
+                    copies.append((canon(y["did"]), var_of(kids(y)[0]), g.pos_deep(y)))
+            grew = True
+            while grew:
+                grew = False
+                for a_, b_, q in copies:
+                    if q and (g.reachable(q, px)) and ((a_ in may) != (b_ in may)):
+                        may |= {a_, b_}
+                        grew = True
+            for y in ir.walk(fn.body):
+                if y is tnode or y["k"] != "MemberExpr" or y.get("member") != tnode["member"] or not kids(y):
+                    continue
+                par = fn.parent(y)
+                is_lhs = par is not None and match.binop(par, ("=",)) and strip_casts(match.binop(par, ("=",))[1]) is y
+                py = g.pos_deep(y)
+                if not is_lhs and var_of(kids(y)[0]) in may - aliases and py and (g.reachable(py, px) or py == px):
+                    foreign = y
+        if not (fresh or read_before or nulltest):
+            if foreign is not None:
+                raise dtable.Undecidable("%s: SPLAY-LINK: whether %s (read at line %s) is the link %s->%s that is overwritten is not understood"
+                                         % (fn.nloc(x), dtable.describe(foreign), foreign.get("l"), dtable.describe(base), tnode["member"]))
+            ck.violation("SPLAY-LINK", fn.qname, "%s:%s->%s" % (fn.name, dtable.describe(base), tnode["member"]),
+                         "%s->%s is overwritten although its old subtree was neither saved nor shown to be empty: with equivalent keys "
+                         "(multiset) the overwritten subtree is non-empty and its nodes are lost" % (dtable.describe(base), tnode["member"]), fn.nloc(x))
+        else:
+            ck.ok("SPLAY-LINK", "%s %s->%s @%s" % (fn.name, dtable.describe(base), tnode["member"], fn.nloc(x)),
+                  "fresh node" if fresh else "old link read before" if read_before else "link known null", nontrivial=False)
+
+    for x in ir.walk(fn.body):
+        b = match.binop(x, ("=",))
+        if not b:
+            continue
+        lhs = strip_casts(b[1])
+        targets = []
+        if lhs["k"] == "MemberExpr" and lhs.get("member") in ("left", "right") and lhs.get("arrow"):
+            targets = [lhs]
+        elif lhs["k"] == "ConditionalOperator":
+            targets = [strip_casts(k_) for k_ in kids(lhs)[1:] if strip_casts(k_)["k"] == "MemberExpr"]
+        for tnode in targets:
+            ck.guarded(lambda: judge(x, tnode))
+
+
+def size_effects(fn, root, what):
+    """net change of size_ by the expression; a write to size_ of another form is not understood"""
+    delta = 0
+    for y in ir.walk(root):
+        if y["k"] == "LambdaExpr":
+            continue
+        fd = match.field_delta(y, "size_")
+        if fd:
+            amount = 1 if fd[1] == 1 else const_int(fd[1])
+            if amount is None:
+                raise dtable.Undecidable("%s: SPLAY-ALLOC-PAIR: size_ changes by an amount that is not a constant (line %s)" % (fn.loc, y.get("l")))
+            delta += amount if fd[0] == "+" else -amount
+            continue
+        w = match.unop(y, ("++", "--")) or (match.binop(y, ASSIGN_OPS) if y["k"] in ("BinaryOperator", "CompoundAssignOperator", "CXXOperatorCallExpr") else None)
+        if w and match.this_field(w[1]) == "size_":
+            raise dtable.Undecidable("%s: SPLAY-ALLOC-PAIR: size_ is written in a form that is not understood (line %s)" % (fn.loc, y.get("l")))
+        if "callee" in y and y["k"] not in ("CXXOperatorCallExpr", "CXXConstructExpr", "CXXTemporaryObjectExpr"):
+            if any(a is not None and a["k"] == "MemberExpr" and match.this_field(a) == "size_" for a in kids(y)[(1 if y.get("member_call") else 0):]):
+                raise dtable.Undecidable("%s: SPLAY-ALLOC-PAIR: size_ is handed to %s() by reference" % (fn.loc, y["callee"]["name"]))
+    return delta
+
+
+def foreign_calls(fn, root, known):
+    """calls whose effect on the nodes / on size_ the rule does not know: other non-const members of this tree and tlx functions
+    that are not in `known`"""
+    out = []
+    for y in ir.walk(root):
+        if y["k"] == "LambdaExpr":
+            out.append("a lambda")
+        if "callee" not in y or y["k"] in ("CXXOperatorCallExpr", "CXXConstructExpr", "CXXTemporaryObjectExpr", "CXXNewExpr"):
+            continue
+        nm = y["callee"]["name"]
+        if nm in known or nm.startswith("~"):
+            continue
+        if is_sibling_call(y):
+            if not y["callee"].get("const"):
+                out.append(nm + "()")
+        elif not y.get("member_call") and (y["callee"].get("qname") or "").startswith("tlx::"):
+            out.append(nm + "()")
+    return out
+
+
+def check_alloc_insert(ck, fn, tag):
+    """insert: on every path the number of nodes allocated equals the change of size_"""
+    leaves = dtable.explore(ret_as_if(fn.body, only=lambda e: False), opaque_atomize(), fn)
+    seen_alloc = False
+    bad = None
+    for lf in leaves:
+        allocs = delta = 0
+        foreign = []
+        for kind, root, _ in path_roots(lf):
+            hits = [y for y in ir.walk(root) if ("callee" in y and y["callee"]["name"] == "allocate" and y["k"] != "CXXNewExpr")
+                    or (y["k"] == "CXXNewExpr" and not y.get("placement"))]
+            if kind == "loop" and (hits or size_effects(fn, root, "loop")):
+                raise dtable.Undecidable("%s: SPLAY-ALLOC-PAIR: allocation / size_ inside a loop (line %s)" % (fn.loc, root.get("l")))
+            allocs += len(hits)
+            delta += size_effects(fn, root, kind)
+            foreign += foreign_calls(fn, root, ("splay", "splay_insert", "allocate", "construct"))
+        seen_alloc = seen_alloc or allocs > 0
+        if allocs != delta and bad is None:
+            if foreign:
+                raise dtable.Undecidable("%s: SPLAY-ALLOC-PAIR: insert() calls %s, whose effect on the nodes / on size_ is not known" % (fn.loc, foreign[0]))
+            bad = (lf["val"], allocs, delta)
+    if bad is None and not seen_alloc:
+        raise dtable.Undecidable("%s: SPLAY-ALLOC-PAIR: no node allocation found in insert()" % fn.loc)
+    if bad is None:
+        ck.ok("SPLAY-ALLOC-PAIR", tag, "one node allocated <-> size_++ on the same paths (%d paths)" % len(leaves))
+    else:
+        ck.violation("SPLAY-ALLOC-PAIR", fn.qname, "insert", "node allocation and size_++ are not on the same paths (path %s: %d node(s) allocated, size_ changes by %d)"
+                     % (dtable.fmt_val(bad[0]) or "-", bad[1], bad[2]), fn.loc)
+
+
+def check_alloc_delete(ck, fn, tag):
+    """delete_node: on every path destroy, then deallocate, and size_ goes down by one"""
+    leaves = dtable.explore(ret_as_if(fn.body, only=lambda e: False), opaque_atomize(), fn)
+    bad = None
+    for lf in leaves:
+        seq = []
+        delta = 0
+        foreign = []
+        for kind, root, _ in path_roots(lf):
+            if kind == "loop":
+                raise dtable.Undecidable("%s: SPLAY-ALLOC-PAIR: a loop in delete_node (line %s)" % (fn.loc, root.get("l")))
+            for y in post_order(root):
+                if y["k"] == "CXXDeleteExpr":
+                    seq += ["dtor", "dealloc"]
+                elif "callee" in y and (y["callee"]["name"].startswith("~") or y["callee"]["name"] in ("destroy", "destroy_at")):
+                    seq.append("dtor")
+                elif "callee" in y and y["callee"]["name"] == "deallocate":
+                    seq.append("dealloc")
+            delta += size_effects(fn, root, kind)
+            foreign += foreign_calls(fn, root, ("destroy", "destroy_at", "deallocate"))
+        if not seq and not delta and lf["val"]:
+            raise dtable.Undecidable("%s: SPLAY-ALLOC-PAIR: delete_node has a path (%s) without any effect" % (fn.loc, dtable.fmt_val(lf["val"])))
+        why = None
+        if "dtor" in seq and "dealloc" in seq and seq.index("dealloc") < seq.index("dtor"):
+            why = "deallocates before it destroys"
+        elif seq.count("dtor") != 1 or seq.count("dealloc") != 1 or delta != -1:
+            if foreign:
+                raise dtable.Undecidable("%s: SPLAY-ALLOC-PAIR: delete_node calls %s, whose effect is not known" % (fn.loc, foreign[0]))
+            why = "got %s, size_ changes by %d" % (seq, delta)
+        if why and bad is None:
+            bad = why
+    if bad is None:
+        ck.ok("SPLAY-ALLOC-PAIR", tag, "destroy, deallocate, size_--")
+    else:
+        ck.violation("SPLAY-ALLOC-PAIR", fn.qname, "delete_node", "delete_node must destroy, deallocate and decrement size_ (%s)" % bad, fn.loc)
+
+
+def check_alloc_erase(ck, fn, tag):
+    """erase(key): the node unlinked by splay_erase is freed exactly on the paths on which it is non-null"""
+    holders = [y for y in ir.walk(fn.body) if y["k"] == "VarDecl" and kids(y) and kids(y)[0] is not None and "callee" in (peel(kids(y)[0]) or {})
+               and match.call_named(peel(kids(y)[0]), ("splay_erase",)) is not None]
+    calls = [y for y in ir.walk(fn.body) if "callee" in y and y["callee"]["name"] == "splay_erase"]
+    if len(holders) != 1 or len(calls) != 1:
+        raise dtable.Undecidable("%s: SPLAY-ALLOC-PAIR: the result of splay_erase is not held in one local variable" % fn.loc)
+    o = holders[0]["did"]
+
+    def special(n, run):
+        pt = match.ptr_truth(n)
+        if pt is not None and ref_of(pt) == o:
+            return ("non-null", False)
+        b = match.binop(n, ("==", "!="))
+        if b:
+            for l, r in ((b[1], b[2]), (b[2], b[1])):
+                if ref_of(l) == o and is_null(r):
+                    return ("non-null", b[0] == "==")
+        return None
+    leaves = dtable.explore(ret_as_if(fn.body), opaque_atomize(special), fn)
+    bad = None
+    judged = 0
+    for lf in leaves:
+        if not any(ev[0] == "decl" and ev[1].get("did") == o for ev in lf["events"]):
+            continue
+        frees = 0
+        for kind, root, v in path_roots(lf):
+            for y in ir.walk(root):
+                if "callee" in y and y["callee"]["name"] == "delete_node":
+                    if kind == "loop" or ref_of(kids(y)[-1]) != o:
+                        raise dtable.Undecidable("%s: SPLAY-ALLOC-PAIR: a delete_node call that is not understood (line %s)" % (fn.loc, y.get("l")))
+                    frees += 1
+                elif y["k"] == "DeclRefExpr" and y["ref"]["id"] == o:
+                    par, to_bool = fn.parent(y), False
+                    while par is not None and (par["k"] in CASTS or par["k"] in WRAP):
+                        to_bool = to_bool or par.get("cast") == "PointerToBoolean"
+                        par = fn.parent(par)
+                    if par is not None and "callee" in par and par["callee"]["name"] == "delete_node":
+                        continue
+                    if to_bool or (par is not None and match.binop(par, ("==", "!="))):
+                        continue
+                    raise dtable.Undecidable("%s: SPLAY-ALLOC-PAIR: the unlinked node is used in a way that is not understood (line %s)" % (fn.loc, y.get("l")))
+        nn = lf["val"].get("non-null")
+        why = None
+        if frees > 1:
+            why = "frees the unlinked node %d times" % frees
+        elif frees == 1 and nn is not True:
+            why = "frees the result of splay_erase where it %s" % ("is null" if nn is False else "was not tested (null when the key is absent)")
+        elif frees == 0 and nn is not False:
+            why = "does not free the unlinked node where it %s" % ("is non-null" if nn else "was not tested")
+        if why and any(k_ != "non-null" for k_ in lf["val"]):
+            raise dtable.Undecidable("%s: SPLAY-ALLOC-PAIR: erase() %s, under conditions that are not understood (%s)" % (fn.loc, why, dtable.fmt_val(lf["val"])))
+        if why and bad is None:
+            bad = (lf["val"], why)
+        judged += 1
+    if not judged:
+        raise dtable.Undecidable("%s: SPLAY-ALLOC-PAIR: no path through the declaration of the splay_erase result was evaluated" % fn.loc)
+    if bad is None:
+        ck.ok("SPLAY-ALLOC-PAIR", tag, "the node unlinked by splay_erase is freed exactly on the found path")
+    else:
+        ck.violation("SPLAY-ALLOC-PAIR", fn.qname, "erase", "the node returned by splay_erase is not freed exactly when it is non-null (path %s: %s)"
+                     % (dtable.fmt_val(bad[0]) or "-", bad[1]), fn.loc)
 
 
 def check_splay(ck, tu):
@@ -418,167 +1533,44 @@ def check_splay(ck, tu):
     for fn in fns:
         key = (fn.qname, tuple(fn.rtargs), tuple(fn.targs), len(fn.params))
         tag = fn.full.split("(")[0][-70:]
-        g = None
+        cfgs = {}
+
+        def g_of(fn=fn, cfgs=cfgs):
+            if "g" not in cfgs:
+                cfgs["g"] = cfgm.CFG(fn)
+            return cfgs["g"]
         # ---- SPLAY-NULL + SPLAY-WRITEBACK at every splay() call
         for x in ir.walk(fn.body):
             c = match.call_named(x, ("splay",)) if "callee" in x and x["k"] == "CallExpr" else None
-            if c is None:
-                continue
-            g = g or cfgm.CFG(fn)
-            arg = kids(c)[1]
-            root = is_root(arg, fn)
-            par = fn.parent(x)
-            # where does the result go?
-            dest = None
-            p = par
-            while p is not None and p["k"] in ("ImplicitCastExpr", "ParenExpr"):
-                p = fn.parent(p)
-            if p is not None:
-                b = match.binop(p, ("=",))
-                if b and strip_casts(b[2]) is x:
-                    dest = b[1]
-                elif p["k"] == "VarDecl":
-                    dest = p
-            if root:
-                # the (possibly different) root returned by splay must be stored back on every path
-                ok_wb = dest is not None and dest is not p and is_root(dest, fn) == root if dest is not None and dest.get("k") != "VarDecl" else False
-                if not ok_wb:
-                    # look for assignments to the root later on all paths
-                    asg = [y for y in ir.walk(fn.body) if match.binop(y, ("=",)) and is_root(match.binop(y, ("=",))[1], fn) == root and g.pos(y)]
-                    pc = g.pos_deep(x)
-                    if pc and g.path_avoiding(pc, [g.pos(y) for y in asg]) is None and asg:
-                        ok_wb = True
-                if ok_wb:
-                    ck.ok("SPLAY-WRITEBACK", "%s @%s" % (tag, fn.nloc(x)), "result of splay(%s) is stored back into %s on every path" % (root, root))
-                else:
-                    ck.violation("SPLAY-WRITEBACK", fn.qname, "%s:%s" % (fn.name, root),
-                                 "splay() restructures the tree below %s but there is a path on which the new root is not stored back: the nodes above the old root are lost"
-                                 % root, fn.nloc(x))
-            # null contradiction: result dereferenced while the argument may be null
-            if dest is not None:
-                dkey = dest
-                derefs = []
-                for y in ir.walk(fn.body):
-                    if y["k"] == "MemberExpr" and y.get("arrow") and kids(y):
-                        base = kids(y)[0]
-                        same = (dest.get("k") == "VarDecl" and ref_of(base) == dest.get("did")) or \
-                               (dest.get("k") != "VarDecl" and match.same_expr(base, dest))
-                        if same and g.pos_deep(y) and g.pos_deep(x) and g.reachable(g.pos_deep(x), g.pos_deep(y)):
-                            derefs.append(y)
-                if derefs:
-                    okn = guarded_nonnull(fn, g, arg, x)
-                    if not okn and dest.get("k") != "VarDecl":
-                        okn = all(guarded_nonnull(fn, g, dest, d) or and_guarded(fn, dest, d) for d in derefs)
-                    if okn:
-                        ck.ok("SPLAY-NULL", "%s @%s" % (tag, fn.nloc(x)), "splay(%s) result is dereferenced only where the argument is known non-null" % dtable.describe(arg))
-                    else:
-                        ck.violation("SPLAY-NULL", fn.qname, "%s:%s" % (fn.name, dtable.describe(arg)),
-                                     "splay() returns null for a null tree (the code itself treats %s as nullable elsewhere) but the result is dereferenced unguarded"
-                                     % dtable.describe(arg), fn.nloc(derefs[0]))
+            if c is not None:
+                ck.guarded(lambda x=x: splay_calls(ck, fn, tag, x, g_of()))
         # ---- SPLAY-OWNER: deleting all nodes must null the root
         for x in ir.walk(fn.body):
             c = match.call_named(x, ("splay_traverse_postorder",)) if "callee" in x else None
             if c is None or fn.record != ST:
                 continue
             deletes = False
-            lam = [y for y in ir.walk(c) if y["k"] == "LambdaExpr"]
-            for l in lam:
+            for l in [y for y in ir.walk(c) if y["k"] == "LambdaExpr"]:
                 lf = tu.by_did.get(l.get("fn"))
                 if lf is not None and any(match.call_named(z, ("delete_node",)) for z in ir.walk(lf.body) if "callee" in z):
                     deletes = True
-            if not deletes:
-                continue
-            g = g or cfgm.CFG(fn)
-            asg = [y for y in ir.walk(fn.body) if match.binop(y, ("=",)) and match.this_field(match.binop(y, ("=",))[1]) == "root_"
-                   and (strip_casts(match.binop(y, ("=",))[2])["k"] == "NullPtr" or const_int(match.binop(y, ("=",))[2]) == 0)]
-            pc = g.pos_deep(x)
-            if asg and pc and g.path_avoiding(pc, [g.pos(y) for y in asg if g.pos(y)]) is None:
-                ck.ok("SPLAY-OWNER", tag, "root_ is reset after all nodes were deleted")
-            else:
-                ck.violation("SPLAY-OWNER", fn.qname, fn.name + ":root_", "all nodes are deleted but root_ keeps pointing to freed memory (reuse or destructor -> double free)", fn.nloc(x))
+            if deletes:
+                ck.guarded(lambda x=x, c=c: check_owner(ck, tu, fn, tag, x, c, g_of()))
         # ---- SPLAY-LINK: a child link may only be overwritten when saved before or known null
         if fn.record is None and fn.name in ("splay", "splay_insert", "splay_erase"):
-            g = g or cfgm.CFG(fn)
-            n_links = 0
-            for x in ir.walk(fn.body):
-                b = match.binop(x, ("=",))
-                if not b:
-                    continue
-                lhs = strip_casts(b[1])
-                targets = []
-                if lhs["k"] == "MemberExpr" and lhs.get("member") in ("left", "right") and lhs.get("arrow"):
-                    targets = [lhs]
-                elif lhs["k"] == "ConditionalOperator":
-                    targets = [strip_casts(k_) for k_ in kids(lhs)[1:] if strip_casts(k_)["k"] == "MemberExpr"]
-                for tnode in targets:
-                    n_links += 1
-                    base = kids(tnode)[0]
-                    bref = ref_of(base)
-                    # fresh node parameter (splay_insert's nn) or an earlier read of the same link or a null test
-                    fresh = fn.name == "splay_insert" and bref == fn.params[0]["did"]
-                    px = g.pos_deep(x)
-                    read_before = False
-                    aliases = {bref}
-                    for y in ir.walk(fn.body):
-                        bb = match.binop(y, ("=",))
-                        if bb and ref_of(bb[1]) == bref and strip_casts(bb[1])["k"] == "DeclRefExpr" and ref_of(bb[2]) is not None \
-                                and strip_casts(bb[2])["k"] == "DeclRefExpr":
-                            aliases.add(ref_of(bb[2]))
-                    for y in ir.walk(fn.body):
-                        if y is tnode or y["k"] != "MemberExpr" or y.get("member") != tnode["member"] or not kids(y):
-                            continue
-                        if ref_of(kids(y)[0]) not in aliases or bref is None:
-                            continue
-                        # is y read (not the lhs of an assignment)?
-                        par = fn.parent(y)
-                        is_lhs = par is not None and match.binop(par, ("=",)) and strip_casts(match.binop(par, ("=",))[1]) is y
-                        py = g.pos_deep(y)
-                        if not is_lhs and py and px and (g.reachable(py, px) or py == px or ref_of(kids(y)[0]) != bref):
-                            read_before = True
-                    nulltest = guarded_null(fn, g, tnode, x)
-                    if not (fresh or read_before or nulltest):
-                        ck.violation("SPLAY-LINK", fn.qname, "%s:%s->%s" % (fn.name, dtable.describe(base), tnode["member"]),
-                                     "%s->%s is overwritten although its old subtree was neither saved nor shown to be empty: with equivalent keys "
-                                     "(multiset) the overwritten subtree is non-empty and its nodes are lost" % (dtable.describe(base), tnode["member"]), fn.nloc(x))
-                    else:
-                        ck.ok("SPLAY-LINK", "%s %s->%s @%s" % (fn.name, dtable.describe(base), tnode["member"], fn.nloc(x)),
-                              "fresh node" if fresh else "old link read before" if read_before else "link known null", nontrivial=False)
+            ck.guarded(lambda: check_links(ck, fn, g_of()))
         # ---- SPLAY-ORIENT
         if fn.record is None and fn.name == "splay" and key not in seen:
-            check_orient(ck, fn)
+            ck.guarded(lambda: check_orient(ck, fn))
         if fn.record is None and fn.name == "splay_insert" and key not in seen:
-            check_insert_orient(ck, fn)
+            ck.guarded(lambda: check_insert_orient(ck, fn))
         # ---- allocation pairing
         if fn.record == ST and fn.name == "insert":
-            allocs = [y for y in ir.walk(fn.body) if y["k"] == "CXXNewExpr"]
-            incs = [y for y in ir.walk(fn.body) if match.unop(y, ("++",)) and match.this_field(match.unop(y, ("++",))[1]) == "size_"]
-            g = g or cfgm.CFG(fn)
-            okp = len(allocs) == 1 and len(incs) == 1 and g.pos_deep(allocs[0]) and g.pos(incs[0]) and g.dominates(g.pos_deep(allocs[0]), g.pos(incs[0])) \
-                and g.postdominates(g.pos(incs[0]), g.pos_deep(allocs[0]))
-            if okp:
-                ck.ok("SPLAY-ALLOC-PAIR", tag, "one node allocated <-> size_++ on the same paths")
-            else:
-                ck.violation("SPLAY-ALLOC-PAIR", fn.qname, "insert", "node allocation and size_++ are not on the same paths", fn.loc)
+            ck.guarded(lambda: check_alloc_insert(ck, fn, tag))
         if fn.record == ST and fn.name == "delete_node":
-            evs = [("dtor" if ("callee" in y and y["callee"]["name"].startswith("~")) else "dealloc" if match.call_named(y, ("deallocate",)) else
-                    "size--" if (match.unop(y, ("--",)) and match.this_field(match.unop(y, ("--",))[1]) == "size_") else None) for y in ir.walk(fn.body)]
-            evs = [e for e in evs if e]
-            if evs[:2] == ["dtor", "dealloc"] and "size--" in evs:
-                ck.ok("SPLAY-ALLOC-PAIR", tag, "destroy, deallocate, size_--")
-            else:
-                ck.violation("SPLAY-ALLOC-PAIR", fn.qname, "delete_node", "delete_node must destroy, deallocate and decrement size_ (got %s)" % evs, fn.loc)
+            ck.guarded(lambda: check_alloc_delete(ck, fn, tag))
         if fn.record == ST and fn.name == "erase" and fn.params and not fn.params[0]["ty"].endswith("*"):
-            g = g or cfgm.CFG(fn)
-            dn = [y for y in ir.walk(fn.body) if "callee" in y and match.call_named(y, ("delete_node",))]
-            okp = False
-            if len(dn) == 1:
-                out = ref_of(kids(dn[0])[-1])
-                d = [y for y in ir.walk(fn.body) if y["k"] == "VarDecl" and y["did"] == out and kids(y) and match.call_named(kids(y)[0], ("splay_erase",))]
-                okp = bool(d) and guarded_nonnull_var(fn, g, out, dn[0])
-            if okp:
-                ck.ok("SPLAY-ALLOC-PAIR", tag, "the node unlinked by splay_erase is freed exactly on the found path")
-            else:
-                ck.violation("SPLAY-ALLOC-PAIR", fn.qname, "erase", "the node returned by splay_erase is not freed exactly when it is non-null", fn.loc)
+            ck.guarded(lambda: check_alloc_erase(ck, fn, tag))
         seen.add(key)
 
 
@@ -593,7 +1585,7 @@ def guarded_null(fn, g, link, at_node):
             continue
         b = match.binop(cond, ("!=",))
         e = None
-        if b and strip_casts(b[2])["k"] == "NullPtr":
+        if b and is_null(b[2]):
             e = b[1]
         elif match.ptr_truth(cond) is not None:
             e = match.ptr_truth(cond)
@@ -605,28 +1597,16 @@ def guarded_null(fn, g, link, at_node):
     return False
 
 
-def guarded_nonnull_var(fn, g, did, at_node):
-    for x in ir.walk(fn.body):
-        if x["k"] != "IfStmt":
-            continue
-        c = kids(x)[0]
-        u = match.unop(c, ("!",))
-        t = kids(x)[1]
-        if u and ref_of(match.ptr_truth(u[1]) if match.ptr_truth(u[1]) is not None else u[1]) == did and t is not None and \
-                any(y["k"] == "ReturnStmt" for y in ir.walk(t)):
-            pi, pa = g.pos_deep(c), g.pos_deep(at_node)
-            if pi and pa and g.dominates(pi, pa):
-                return True
-        b = match.binop(c, ("==", "!="))
-        if b and ref_of(b[1]) == did and strip_casts(b[2])["k"] == "NullPtr":
-            if b[0] == "!=" and t is not None and any(y is at_node for y in ir.walk(t)):
-                return True
-            if b[0] == "==" and t is not None and any(y["k"] == "ReturnStmt" for y in ir.walk(t)):
-                return True
-        pt = match.ptr_truth(c)
-        if pt is not None and ref_of(pt) == did and t is not None and any(y is at_node for y in ir.walk(t)):
-            return True
-    return False
+def single_init(fn, did):
+    """initialiser of a local that is declared once with an initialiser and never written afterwards, else None"""
+    decls = [y for y in ir.walk(fn.body) if y["k"] == "VarDecl" and y.get("did") == did]
+    if len(decls) != 1 or not kids(decls[0]) or kids(decls[0])[0] is None:
+        return None
+    for y in ir.walk(fn.body):
+        w = match.unop(y, ("++", "--")) or (match.binop(y, ASSIGN_OPS) if y["k"] in ("BinaryOperator", "CompoundAssignOperator", "CXXOperatorCallExpr") else None)
+        if w and normalize.lvalue_root(w[1]) == did and ref_of(w[1]) == did:
+            return None
+    return kids(decls[0])[0]
 
 
 def check_orient(ck, fn):
@@ -639,6 +1619,30 @@ def check_orient(ck, fn):
     bad = False
     n = 0
 
+    def resolved(e, depth=0):
+        """e with never-reassigned locals replaced by what they were initialised with (for reading off key / left / right)"""
+        e0 = strip_casts(e)
+        d = ref_of(e0)
+        if d is not None and d not in (k, t) and depth < 4:
+            init = single_init(fn, d)
+            if init is not None:
+                return resolved(init, depth + 1)
+        return e0
+
+    def chain_fields(e, depth=0):
+        """the left/right member names along the access path of e, locals resolved; None if the path is not understood"""
+        e0 = resolved(e)
+        if e0 is None or depth > 6:
+            return None
+        if e0["k"] == "DeclRefExpr":
+            return [] if e0["ref"]["id"] == t else None
+        if e0["k"] == "MemberExpr" and kids(e0):
+            inner = chain_fields(kids(e0)[0], depth + 1)
+            if inner is None:
+                return None
+            return inner + ([e0["member"]] if e0["member"] in ("left", "right") else [])
+        return None
+
     def side_of(cond):
         fc = match.functor_call(cond)
         if not fc or len(fc[1]) != 2:
@@ -646,6 +1650,7 @@ def check_orient(ck, fn):
         a, b = fc[1]
 
         def role(e):
+            e = resolved(e)
             if ref_of(e) == k:
                 return "k"
             f = match.field_of(e)
@@ -662,17 +1667,29 @@ def check_orient(ck, fn):
         n += 1
         then = kids(node)[1]
         other = "right" if side == "left" else "left"
+        where = "%s: SPLAY-ORIENT: " % fn.nloc(node)
         descents = [match.binop(y, ("=",)) for y in kids(then) if y and match.binop(y, ("=",)) and ref_of(match.binop(y, ("=",))[1]) == t]
-        okd = bool(descents) and match.field_of(descents[-1][2]) and match.field_of(descents[-1][2])[1] == side
+        if not descents:
+            raise dtable.Undecidable(where + "where the search continues on the %s side is not found" % side)
+        f = match.field_of(resolved(descents[-1][2]))
+        if not f or f[1] not in ("left", "right"):
+            raise dtable.Undecidable(where + "the step `%s` is not a descent into a child" % dtable.describe(descents[-1][2]))
+        wrong = f[1] == other
         # zig-zig test compares with the child on the same side
         inner = [y for y in kids(then) if y and y["k"] == "IfStmt" and match.functor_call(kids(y)[0])]
-        oki = True
         for y in inner:
             fc = match.functor_call(kids(y)[0])
-            names = [z.get("member") for a in fc[1] for z in ir.walk(a) if z["k"] == "MemberExpr" and z.get("member") in ("left", "right")]
-            if side_of(kids(y)[0]) != side or names != [side]:
-                oki = False
-        if not (okd and oki):
+            s2 = side_of(kids(y)[0])
+            names = None
+            for a in fc[1]:
+                fa = match.field_of(resolved(a))
+                if fa and fa[1] == "key":
+                    names = chain_fields(fa[0])
+            if s2 is None or names is None or len(names) != 1:
+                raise dtable.Undecidable(where + "the zig-zig comparison %s is not understood" % dtable.describe(kids(y)[0]))
+            if s2 != side or names != [side]:
+                wrong = True
+        if wrong:
             ck.violation("SPLAY-ORIENT", fn.qname, "splay:" + side,
                          "when the key is %s than the node the search must continue into the %s subtree" % ("smaller" if side == "left" else "larger", side), fn.nloc(node))
             bad = True
@@ -683,8 +1700,9 @@ def check_orient(ck, fn):
 
 
 def check_insert_orient(ck, fn):
-    """splay_insert: on every path (tree empty | new key strictly smaller | strictly larger) the links written are the ones of
-    a root insertion: decision table over {t is null, cmp(new, root), cmp(root, new)}"""
+    """splay_insert: on every path (tree empty | new key strictly smaller | strictly larger) the links at the end are the ones of
+    a root insertion: decision table over {t is null, cmp(new, root), cmp(root, new)}, the assignments of each path are
+    executed on symbolic values (null, t, nn, the links t had on entry)"""
     nn, t = fn.params[0]["did"], fn.params[1]["did"]
 
     def owner(e):
@@ -699,7 +1717,7 @@ def check_insert_orient(ck, fn):
         bb = match.binop(n0, ("==", "!="))
         if bb:
             for l, r in ((bb[1], bb[2]), (bb[2], bb[1])):
-                if ref_of(l) == t and strip_casts(r)["k"] in ("NullPtr", "CXXNullPtrLiteralExpr", "GNUNullExpr"):
+                if ref_of(l) == t and is_null(r):
                     return ("null", bb[0] == "!=")
         fc = match.functor_call(n0)
         if fc and len(fc[1]) == 2:
@@ -710,47 +1728,83 @@ def check_insert_orient(ck, fn):
                 return ("root<new", False)
             raise dtable.Undecidable("%s: comparison operands not understood: %s" % (fn.loc, dtable.describe(n0)))
         return None
-    leaves = dtable.explore(fn.body, atomize, fn)
+    leaves = dtable.explore(ret_as_if(fn.body, only=lambda e: False), atomize, fn)
 
-    def links(lf):
-        out = {}
-        for ev in lf["events"]:
-            if ev[0] != "expr":
+    def und(what):
+        raise dtable.Undecidable("%s: SPLAY-ORIENT: splay_insert: %s" % (fn.loc, what))
+
+    def final_state(lf):
+        """-> (links at the end {(node, side): value}, returned value)"""
+        store, env = {}, {}
+
+        def value(e):
+            e = strip_casts(e)
+            if e is None:
+                return "?"
+            if is_null(e):
+                return "null"
+            d = ref_of(e)
+            if d is not None:
+                return "nn" if d == nn else "t" if d == t else env.get(d, "?")
+            if e["k"] == "BinaryOperator" and e.get("op") == "=":
+                v = value(kids(e)[1])
+                assign(kids(e)[0], v)
+                return v
+            f = match.field_of(e)
+            if f and f[1] in ("left", "right"):
+                b = value(f[0])
+                if b in ("nn", "t"):
+                    return store.get((b, f[1]), "%s->%s" % (b, f[1]))
+            return "?"
+
+        def assign(lhs, v):
+            d = ref_of(lhs)
+            if d is not None:
+                if d in (nn, t):
+                    und("a parameter is reassigned (line %s)" % lhs.get("l"))
+                env[d] = v
+                return
+            f = match.field_of(lhs)
+            b = value(f[0]) if f else "?"
+            if not f or b not in ("nn", "t"):
+                und("a store to %s is not understood" % dtable.describe(lhs))
+            store[(b, f[1])] = v
+        for kind, root, v in path_roots(lf):
+            if kind == "loop":
+                und("a loop")
+            if kind == "ret":
                 continue
-            stack = [ev[1]]
-            # chained assignment a = b = c: the innermost first
-            order = []
-            while stack:
-                y = stack.pop()
-                bq = match.binop(y, ("=",)) if y is not None and y["k"] in ("BinaryOperator",) else None
-                if bq:
-                    order.append(bq)
-                    stack.append(strip_casts(bq[2]))
-            for bq in reversed(order):
-                f = match.field_of(bq[1])
-                if f and f[1] in ("left", "right"):
-                    rhs = strip_casts(bq[2])
-                    while rhs is not None and rhs["k"] == "BinaryOperator" and rhs.get("op") == "=":
-                        rhs = strip_casts(kids(rhs)[1])
-                    f2 = match.field_of(rhs)
-                    out[(ref_of(f[0]), f[1])] = "null" if rhs["k"] == "NullPtr" else ("t" if ref_of(rhs) == t else (("t->" + f2[1]) if f2 and ref_of(f2[0]) == t else "?"))
-        return out
-    want_empty = {(nn, "left"): "null", (nn, "right"): "null"}
-    want_small = {(nn, "left"): "t->left", (nn, "right"): "t", (t, "left"): "null"}
-    want_large = {(nn, "right"): "t->right", (nn, "left"): "t", (t, "right"): "null"}
+            if kind == "decl":
+                if (v.get("ty") or "").rstrip().endswith("&"):
+                    und("a reference local (%s)" % v.get("name"))
+                env[v["did"]] = value(root)
+                continue
+            e = strip_casts(root)
+            if e["k"] == "BinaryOperator" and e.get("op") == "=":
+                value(e)
+            elif any(match.unop(y, ("++", "--")) or (match.binop(y, ASSIGN_OPS) and y["k"] in ("BinaryOperator", "CompoundAssignOperator"))
+                     or ("callee" in y and y["k"] in ("CallExpr", "CXXMemberCallExpr")) for y in ir.walk(e)):
+                und("the statement at line %s is not understood" % e.get("l"))
+        st = lf["stop"]
+        ret = value(st[1][0]) if st[0] == "return" and st[1] and st[1][0] is not None else None
+        return store, ret
+    want_empty = {("nn", "left"): "null", ("nn", "right"): "null"}
+    want_small = {("nn", "left"): "t->left", ("nn", "right"): "t", ("t", "left"): "null", ("t", "right"): "t->right"}
+    want_large = {("nn", "right"): "t->right", ("nn", "left"): "t", ("t", "right"): "null", ("t", "left"): "t->left"}
     atoms = dtable.atoms_of(leaves)
     if "null" not in atoms or not ({"new<root", "root<new"} & set(atoms)):
         raise dtable.Undecidable("%s: splay_insert decision not found" % fn.loc)
     bad = None
     for v, lf in dtable.table(leaves, lambda v_: not (v_.get("new<root") and v_.get("root<new")), atoms):
-        got = links(lf)
-        ret = lf["stop"][1][0] if lf["stop"][0] == "return" and lf["stop"][1] else None
-        if ret is None or ref_of(ret) != nn:
+        store, ret = final_state(lf)
+        if ret == "?" or "?" in store.values():
+            und("a value on the path %s is not understood (%s)" % (dtable.fmt_val(lf["val"]), sorted(store.items())))
+        if ret != "nn":
             bad = bad or (v, "does not return the new node")
             continue
-        is_null = v["null"]
-        if is_null:
-            if got != want_empty:
+        got = {(o, s): store.get((o, s), "%s->%s" % (o, s)) for o in ("nn", "t") for s in ("left", "right")}
+        if v["null"]:
+            if {q: got[q] for q in want_empty} != want_empty:
                 bad = bad or (v, "inserting into an empty tree must null both links of the new node")
         elif v.get("new<root"):
             if got != want_small:
@@ -779,7 +1833,7 @@ def run(ck):
     for t in types:
         tu = ir.extract("witness/C17_lru_splay.cpp", defines=["WITNESS_K=" + t])
         check_lru(ck, tu)
-        check_splay(ck, tu)
+        ck.guarded(lambda tu=tu: check_splay(ck, tu))
     m = len(types)
     ck.floor("LRU-COUPLED", 14 * m)
     ck.floor("LRU-THROW-GUARD", 6 * m)
